@@ -1,16 +1,1940 @@
-//! C05 (component level) — not built yet.
+//! C05 — "Wire codecs are total, round-trip exactly and follow the RFC 9000 layout".
+//!
+//! Differential of s2n-quic-core's codecs against `refquic` (written from the RFC text only):
+//! varints, frames (typed values and arbitrary bytes), protected packet headers, truncated
+//! packet numbers and transport-parameter blocks.
+//!
+//! Latitude list (either outcome accepted, each counted as a class):
+//! * `latitude:nonminimal-type` — RFC 9000 §12.4: "An endpoint MAY treat the receipt of a
+//!   frame type that uses a longer encoding than necessary as a connection error of type
+//!   PROTOCOL_VIOLATION."
+//! * `skip:s2n-extension` — frame types 0xdc0000 / 0xdc0002 and transport parameters
+//!   0xdc0000 / 0xdc0002 are s2n-quic's private extensions (outside RFC 9000/9221).
+//! * `deferred:*` / `invalid-rejected:*` — the input is wire-well-formed but breaks a
+//!   validity rule (`refquic::InvalidKind`); the RFC requires a connection error, not that it
+//!   is raised by the decoder, so s2n may reject it while decoding or in a later layer.
+//! * headers: versions other than 1 (only RFC 8999 applies), Version Negotiation with
+//!   connection ids > 20 bytes (RFC 8999 allows 255, a v1 client can never match them),
+//!   Initial packets with connection ids > 20 bytes (s2n validates them after version
+//!   negotiation), empty Retry token / empty version list (validity rules).
+//! * transport parameters: everything about value *ranges*, roles and duplicates (C14).
 
-use vcore::{Property, SubCheck};
+use proptest::collection::vec as pvec;
+use proptest::prelude::*;
+use refquic::frame::FRAME_NAMES;
+use refquic::{
+    decode_varint, encode_frame, encode_frame_opts, encode_varint, parse_frame_ext, varint_len,
+    EncodeOpts, InvalidKind, RefEcn, RefError, RefFrame, VARINT_MAX,
+};
+use s2n_codec::{
+    DecoderBuffer, DecoderBufferMut, Encoder, EncoderBuffer, EncoderLenEstimator, EncoderValue,
+};
+use s2n_quic_core::{frame::FrameMut, varint::VarInt};
+use serde::{Deserialize, Serialize};
+use std::sync::OnceLock;
+use vcore::{
+    ensure_that, fail, gen::*, CaseResult, EnumCheck, Fail, Obs, PropCheck, Property, SubCheck,
+    Tier,
+};
+
+// ---------------------------------------------------------------------------------------
+// shared helpers
+
+const CANARY: u8 = 0xA5;
+
+/// Encodes `v` with s2n three ways (exactly sized buffer, oversized buffer, length
+/// estimator) and checks: announced size == bytes written == `expect.len()`, the bytes are
+/// `expect`, nothing outside the buffer handed to the encoder is touched.
+fn s2n_encode_checked<T: EncoderValue>(v: &T, expect: &[u8], what: &str) -> CaseResult {
+    let announced = v.encoding_size();
+    ensure_that!(
+        announced == expect.len(),
+        format!("{what}:announced-size"),
+        "encoding_size() = {announced}, reference encoding has {} bytes ({})",
+        expect.len(),
+        hex(expect)
+    );
+    let mut est = EncoderLenEstimator::new(usize::MAX);
+    est.encode(v);
+    ensure_that!(
+        est.len() == expect.len(),
+        format!("{what}:estimator-size"),
+        "EncoderLenEstimator counted {} bytes, reference encoding has {}",
+        est.len(),
+        expect.len()
+    );
+    for extra in [0usize, 3, 9, 24] {
+        let n = expect.len();
+        let mut mem = vec![CANARY; n + extra + 16];
+        let (buf, guard) = mem.split_at_mut(n + extra);
+        let written = {
+            let mut enc = EncoderBuffer::new(buf);
+            ensure_that!(
+                v.encoding_size_for_encoder(&enc) == n,
+                format!("{what}:announced-size"),
+                "encoding_size_for_encoder (capacity {}) = {}, reference {}",
+                n + extra,
+                v.encoding_size_for_encoder(&enc),
+                n
+            );
+            enc.encode(v);
+            enc.len()
+        };
+        ensure_that!(
+            written == n,
+            format!("{what}:written-size"),
+            "encoder wrote {written} bytes into a buffer of {} but announced {n}",
+            n + extra
+        );
+        ensure_that!(
+            &buf[..n] == expect,
+            format!("{what}:bytes"),
+            "s2n encodes {} but the reference encoding is {} (buffer capacity {})",
+            hex(&buf[..n]),
+            hex(expect),
+            n + extra
+        );
+        ensure_that!(
+            guard.iter().all(|b| *b == CANARY),
+            format!("{what}:out-of-bounds-write"),
+            "encoder wrote beyond the end of its buffer (capacity {})",
+            n + extra
+        );
+    }
+    Ok(())
+}
+
+fn s2n_to_vec<T: EncoderValue>(v: &T) -> Vec<u8> {
+    let mut est = EncoderLenEstimator::new(usize::MAX);
+    est.encode(v);
+    let mut out = vec![0u8; est.len()];
+    let mut enc = EncoderBuffer::new(&mut out);
+    enc.encode(v);
+    out
+}
+
+fn hex(b: &[u8]) -> String {
+    let mut s = String::with_capacity(b.len() * 2 + 8);
+    for (i, x) in b.iter().enumerate() {
+        if i == 96 {
+            s.push_str(&format!("…(+{} bytes)", b.len() - 96));
+            break;
+        }
+        s.push_str(&format!("{x:02x}"));
+    }
+    s
+}
+
+fn repo_root() -> String {
+    std::env::var("VERIF_REPO").unwrap_or_else(|_| "/repo".to_string())
+}
+
+fn load_samples(dir: &str) -> Vec<(String, Vec<u8>)> {
+    let path = format!("{}/quic/s2n-quic-core/src/{dir}/test_samples", repo_root());
+    let mut v: Vec<(String, Vec<u8>)> = std::fs::read_dir(&path)
+        .map(|rd| {
+            rd.filter_map(|e| e.ok())
+                .filter(|e| e.path().extension().map(|x| x == "bin").unwrap_or(false))
+                .filter_map(|e| {
+                    let name = e.file_name().to_string_lossy().to_string();
+                    std::fs::read(e.path()).ok().map(|b| (name, b))
+                })
+                .collect()
+        })
+        .unwrap_or_default();
+    v.sort();
+    v
+}
+
+fn frame_samples() -> &'static Vec<(String, Vec<u8>)> {
+    static S: OnceLock<Vec<(String, Vec<u8>)>> = OnceLock::new();
+    S.get_or_init(|| load_samples("frame"))
+}
+
+fn packet_samples() -> &'static Vec<(String, Vec<u8>)> {
+    static S: OnceLock<Vec<(String, Vec<u8>)>> = OnceLock::new();
+    S.get_or_init(|| load_samples("packet"))
+}
+
+/// Byte-level edits applied to a valid message (family 3 of the design).
+#[derive(Clone, Debug, Hash, PartialEq, Eq, Serialize, Deserialize)]
+pub enum Mutation {
+    Flip { pos: u16, bit: u8 },
+    Set { pos: u16, val: u8 },
+    Insert { pos: u16, val: u8 },
+    Delete { pos: u16 },
+    Truncate { keep: u16 },
+    /// +-1 on the last byte of the `which`-th length field of the message
+    LenDelta { which: u16, up: bool },
+    /// repeat `len` bytes starting at `pos`
+    Dup { pos: u16, len: u8 },
+}
+
+fn mutation_strategy() -> BoxedStrategy<Mutation> {
+    prop_oneof![
+        4 => (any::<u16>(), 0u8..8).prop_map(|(pos, bit)| Mutation::Flip { pos, bit }),
+        3 => (any::<u16>(), prop_oneof![any::<u8>(), Just(0u8), Just(0xff), Just(0x40), Just(0x80), Just(0xc0)])
+            .prop_map(|(pos, val)| Mutation::Set { pos, val }),
+        2 => (any::<u16>(), any::<u8>()).prop_map(|(pos, val)| Mutation::Insert { pos, val }),
+        2 => any::<u16>().prop_map(|pos| Mutation::Delete { pos }),
+        2 => any::<u16>().prop_map(|keep| Mutation::Truncate { keep }),
+        3 => (any::<u16>(), any::<bool>()).prop_map(|(which, up)| Mutation::LenDelta { which, up }),
+        1 => (any::<u16>(), 1u8..9).prop_map(|(pos, len)| Mutation::Dup { pos, len }),
+    ]
+    .boxed()
+}
+
+/// `len_fields`: positions (in the unmutated message) of the last byte of each length field
+fn apply_mutations(bytes: &mut Vec<u8>, len_fields: &[usize], muts: &[Mutation]) {
+    for m in muts {
+        let n = bytes.len();
+        match *m {
+            Mutation::Flip { pos, bit } if n > 0 => bytes[pick_index(pos, n)] ^= 1 << (bit & 7),
+            Mutation::Set { pos, val } if n > 0 => bytes[pick_index(pos, n)] = val,
+            Mutation::Insert { pos, val } => bytes.insert(pick_index(pos, n + 1), val),
+            Mutation::Delete { pos } if n > 0 => {
+                bytes.remove(pick_index(pos, n));
+            }
+            Mutation::Truncate { keep } => bytes.truncate(pick_index(keep, n + 1)),
+            Mutation::LenDelta { which, up } if !len_fields.is_empty() => {
+                let p = len_fields[pick_index(which, len_fields.len())];
+                if p < n {
+                    bytes[p] = if up { bytes[p].wrapping_add(1) } else { bytes[p].wrapping_sub(1) };
+                }
+            }
+            Mutation::Dup { pos, len } if n > 0 => {
+                let p = pick_index(pos, n);
+                let e = (p + len as usize).min(n);
+                let chunk = bytes[p..e].to_vec();
+                let tail = bytes.split_off(e);
+                bytes.extend_from_slice(&chunk);
+                bytes.extend_from_slice(&tail);
+            }
+            _ => {}
+        }
+    }
+}
+
+fn bumps_strategy() -> BoxedStrategy<Vec<u8>> {
+    prop_oneof![
+        3 => Just(vec![]),
+        2 => pvec(prop_oneof![3 => Just(0u8), 1 => 1u8..4], 1..6),
+    ]
+    .boxed()
+}
+
+// ---------------------------------------------------------------------------------------
+// sub-check `varint`
+
+#[derive(Clone, Debug, Hash, PartialEq, Eq, Serialize, Deserialize)]
+pub enum VarintCase {
+    Bytes(Vec<u8>),
+    Value(u64),
+}
+
+fn varint_oracle(case: &VarintCase, obs: &mut Obs) -> CaseResult {
+    match case {
+        VarintCase::Bytes(b) => {
+            let r = decode_varint(b);
+            let s = DecoderBuffer::new(b).decode::<VarInt>();
+            let mut copy = b.clone();
+            let total = b.len();
+            let m = DecoderBufferMut::new(&mut copy)
+                .decode::<VarInt>()
+                .map(|(v, rest)| (v, total - rest.len()));
+            match (&r, &s) {
+                (Ok((v, n)), Ok((sv, rest))) => {
+                    ensure_that!(sv.as_u64() == *v, "varint:decode-value", "bytes {}: s2n decodes {}, reference {v}", hex(b), sv.as_u64());
+                    ensure_that!(b.len() - rest.len() == *n, "varint:decode-consumed", "bytes {}: s2n consumed {}, reference {n}", hex(b), b.len() - rest.len());
+                    let mv = m.as_ref().ok();
+                    ensure_that!(mv.map(|(v, n)| (v.as_u64(), *n)) == Some((*v, *n)), "varint:decode-mut-differs", "bytes {}: DecoderBufferMut gives {:?}, DecoderBuffer {v}/{n}", hex(b), mv);
+                    // the encoder emits the shortest form of what was decoded
+                    let mut min = vec![];
+                    encode_varint(*v, &mut min);
+                    s2n_encode_checked(sv, &min, "varint")?;
+                    obs.nontrivial(true);
+                    obs.class(match n { 1 => "decode:1-byte", 2 => "decode:2-byte", 4 => "decode:4-byte", _ => "decode:8-byte" });
+                    obs.class_if(min.len() != *n, "decode:non-minimal");
+                }
+                (Err(_), Err(_)) => {
+                    ensure_that!(m.is_err(), "varint:decode-mut-differs", "bytes {}: DecoderBufferMut accepts, DecoderBuffer rejects", hex(b));
+                    obs.class("decode:truncated");
+                }
+                (Ok((v, n)), Err(e)) => fail!("varint:s2n-rejects-valid", "bytes {}: reference decodes {v} ({n} bytes), s2n fails with {e:?}", hex(b)),
+                (Err(e), Ok((sv, _))) => fail!("varint:s2n-accepts-malformed", "bytes {}: reference fails with {e:?}, s2n decodes {}", hex(b), sv.as_u64()),
+            }
+        }
+        VarintCase::Value(v) => {
+            let s = VarInt::new(*v);
+            if *v > VARINT_MAX {
+                ensure_that!(s.is_err(), "varint:range", "VarInt::new({v}) succeeded above 2^62-1");
+                obs.class("value:out-of-range");
+                return Ok(());
+            }
+            let Ok(s) = s else { fail!("varint:range", "VarInt::new({v}) failed for a value <= 2^62-1") };
+            let mut min = vec![];
+            encode_varint(*v, &mut min);
+            ensure_that!(s.encoding_size() == varint_len(*v), "varint:announced-size", "encoding_size({v}) = {}, shortest form has {} bytes", s.encoding_size(), varint_len(*v));
+            s2n_encode_checked(&s, &min, "varint")?;
+            let back = DecoderBuffer::new(&min).decode::<VarInt>();
+            match back {
+                Ok((b, rest)) => ensure_that!(b == s && rest.is_empty(), "varint:round-trip", "{v} encodes to {} which decodes to {}", hex(&min), b.as_u64()),
+                Err(e) => fail!("varint:round-trip", "{v} encodes to {} which fails to decode: {e:?}", hex(&min)),
+            }
+            obs.nontrivial(true);
+            obs.class(match min.len() { 1 => "value:1-byte", 2 => "value:2-byte", 4 => "value:4-byte", _ => "value:8-byte" });
+        }
+    }
+    Ok(())
+}
+
+fn varint_strategy(_t: Tier) -> BoxedStrategy<VarintCase> {
+    prop_oneof![
+        4 => varint_value().prop_map(VarintCase::Value),
+        1 => prop_oneof![Just(VARINT_MAX + 1), Just(u64::MAX), (VARINT_MAX..=u64::MAX)].prop_map(VarintCase::Value),
+        3 => pvec(any::<u8>(), 0..10).prop_map(VarintCase::Bytes),
+        // a boundary value in every width, possibly cut short or extended
+        4 => (varint_value(), 0usize..4, 0usize..10, any::<u8>()).prop_map(|(v, w, keep, pad)| {
+            let mut b = vec![];
+            let width = (varint_len(v) << w).min(8);
+            refquic::encode_varint_width(v, width, &mut b);
+            b.push(pad);
+            b.truncate(keep.max(1).min(b.len()));
+            VarintCase::Bytes(b)
+        }),
+    ]
+    .boxed()
+}
+
+const VARINT_ENUM_FILL: [u8; 4] = [0x00, 0xff, 0x80, 0x01];
+
+fn varint_enum_total(_t: Tier) -> u64 {
+    256 + 65536 + 256 * 9 * 4
+}
+
+fn varint_enum_case(_t: Tier, i: u64) -> VarintCase {
+    if i < 256 {
+        return VarintCase::Bytes(vec![i as u8]);
+    }
+    let i = i - 256;
+    if i < 65536 {
+        return VarintCase::Bytes(vec![(i >> 8) as u8, i as u8]);
+    }
+    let i = i - 65536;
+    let first = (i % 256) as u8;
+    let len = 1 + ((i / 256) % 9) as usize;
+    let fill = VARINT_ENUM_FILL[(i / (256 * 9)) as usize];
+    let mut b = vec![fill; len];
+    b[0] = first;
+    VarintCase::Bytes(b)
+}
+
+// ---------------------------------------------------------------------------------------
+// typed frame generator
+
+fn vi() -> BoxedStrategy<u64> {
+    varint_value()
+}
+
+fn stream_id() -> BoxedStrategy<u64> {
+    prop_oneof![3 => 0u64..16, 2 => vi()].boxed()
+}
+
+fn payload() -> BoxedStrategy<Vec<u8>> {
+    prop_oneof![
+        9 => pvec(any::<u8>(), 0..20),
+        // lengths around the 1/2-byte boundary of the length prefix
+        3 => (62usize..67, any::<u64>()).prop_map(|(n, k)| prf_vec(k, 0, n)),
+        // ... and around the 2/4-byte boundary
+        1 => (16382usize..16386, any::<u64>()).prop_map(|(n, k)| prf_vec(k, 0, n)),
+    ]
+    .boxed()
+}
+
+fn offset_for_data() -> BoxedStrategy<u64> {
+    prop_oneof![4 => vi(), 2 => 0u64..100_000, 1 => (0u64..70).prop_map(|b| VARINT_MAX - b)].boxed()
+}
+
+fn ack_strategy() -> BoxedStrategy<RefFrame> {
+    let small = || prop_oneof![5 => 0u64..4, 3 => 0u64..300, 1 => vi()];
+    let count = prop_oneof![6 => 0usize..4, 3 => 4usize..20, 1 => 20usize..65];
+    (
+        prop_oneof![2 => vi(), 4 => 1000u64..100_000_000, 1 => (0u64..1000).prop_map(|b| VARINT_MAX - b)],
+        vi(),
+        prop_oneof![3 => small().boxed(), 1 => vi()],
+        count.prop_flat_map(move |n| pvec((small(), small()), n)),
+        prop::option::weighted(0.4, (vi(), vi(), vi())),
+        prop::bool::weighted(0.12),
+    )
+        .prop_map(|(largest, delay, first, raw, ecn, adversarial)| {
+            let ecn = ecn.map(|(ect0, ect1, ce)| RefEcn { ect0, ect1, ce });
+            if adversarial {
+                return RefFrame::Ack { largest, delay, first_range: first, ranges: raw, ecn };
+            }
+            // clamp so that no computed packet number is negative (§19.3.1)
+            let first = first.min(largest);
+            let mut smallest = largest - first;
+            let mut ranges = vec![];
+            for (gap, len) in raw {
+                if smallest < 2 {
+                    break;
+                }
+                let gap = gap.min(smallest - 2);
+                let l = smallest - gap - 2;
+                let len = len.min(l);
+                smallest = l - len;
+                ranges.push((gap, len));
+            }
+            RefFrame::Ack { largest, delay, first_range: first, ranges, ecn }
+        })
+        .boxed()
+}
+
+fn max_streams_value() -> BoxedStrategy<u64> {
+    prop_oneof![
+        4 => 0u64..1000,
+        2 => Just(1u64 << 60),
+        1 => Just((1u64 << 60) + 1),
+        1 => Just((1u64 << 60) - 1),
+        2 => vi().prop_map(|v| v.min(1 << 60)),
+        1 => vi(),
+    ]
+    .boxed()
+}
+
+fn new_connection_id_strategy() -> BoxedStrategy<RefFrame> {
+    (
+        vi(),
+        any::<u64>(),
+        prop::bool::weighted(0.1),
+        prop_oneof![
+            10 => pvec(any::<u8>(), 1..21),
+            1 => Just(vec![]),
+            1 => pvec(any::<u8>(), 21..30),
+            1 => any::<u64>().prop_map(|k| prf_vec(k, 0, 255)),
+        ],
+        any::<[u8; 16]>(),
+    )
+        .prop_map(|(seq, k, wild, cid, reset_token)| {
+            let retire_prior_to = if wild { k & VARINT_MAX } else { k % (seq + 1) };
+            RefFrame::NewConnectionId { seq, retire_prior_to, cid, reset_token }
+        })
+        .boxed()
+}
+
+/// one frame of every type with equal weight (ACK twice: with and without ECN happen inside)
+fn frame_strategy() -> BoxedStrategy<RefFrame> {
+    prop_oneof![
+        prop_oneof![4 => 1usize..6, 1 => 6usize..80].prop_map(|len| RefFrame::Padding { len }),
+        Just(RefFrame::Ping),
+        ack_strategy(),
+        ack_strategy(),
+        (stream_id(), vi(), vi()).prop_map(|(stream_id, error_code, final_size)| RefFrame::ResetStream { stream_id, error_code, final_size }),
+        (stream_id(), vi()).prop_map(|(stream_id, error_code)| RefFrame::StopSending { stream_id, error_code }),
+        (offset_for_data(), payload()).prop_map(|(offset, data)| RefFrame::Crypto { offset, data }),
+        prop_oneof![12 => payload(), 1 => Just(vec![])].prop_map(|token| RefFrame::NewToken { token }),
+        (
+            stream_id(),
+            prop_oneof![3 => Just(None), 1 => Just(Some(0u64)), 4 => offset_for_data().prop_map(Some)],
+            any::<bool>(),
+            any::<bool>(),
+            payload()
+        )
+            .prop_map(|(stream_id, offset, len_bit, fin, data)| RefFrame::Stream { stream_id, offset, len_bit, fin, data }),
+        (
+            stream_id(),
+            prop_oneof![3 => Just(None), 1 => Just(Some(0u64)), 4 => offset_for_data().prop_map(Some)],
+            any::<bool>(),
+            any::<bool>(),
+            payload()
+        )
+            .prop_map(|(stream_id, offset, len_bit, fin, data)| RefFrame::Stream { stream_id, offset, len_bit, fin, data }),
+        vi().prop_map(|max| RefFrame::MaxData { max }),
+        (stream_id(), vi()).prop_map(|(stream_id, max)| RefFrame::MaxStreamData { stream_id, max }),
+        (any::<bool>(), max_streams_value()).prop_map(|(bidi, max)| RefFrame::MaxStreams { bidi, max }),
+        vi().prop_map(|limit| RefFrame::DataBlocked { limit }),
+        (stream_id(), vi()).prop_map(|(stream_id, limit)| RefFrame::StreamDataBlocked { stream_id, limit }),
+        (any::<bool>(), max_streams_value()).prop_map(|(bidi, limit)| RefFrame::StreamsBlocked { bidi, limit }),
+        new_connection_id_strategy(),
+        vi().prop_map(|seq| RefFrame::RetireConnectionId { seq }),
+        any::<[u8; 8]>().prop_map(|data| RefFrame::PathChallenge { data }),
+        any::<[u8; 8]>().prop_map(|data| RefFrame::PathResponse { data }),
+        (vi(), vi(), pvec(any::<u8>(), 0..30)).prop_map(|(error_code, frame_type, reason)| RefFrame::ConnectionCloseTransport { error_code, frame_type, reason }),
+        (vi(), prop_oneof![3 => pvec(any::<u8>(), 0..30), 1 => payload()]).prop_map(|(error_code, reason)| RefFrame::ConnectionCloseApp { error_code, reason }),
+        Just(RefFrame::HandshakeDone),
+        (any::<bool>(), payload()).prop_map(|(len_bit, data)| RefFrame::Datagram { len_bit, data }),
+    ]
+    .boxed()
+}
+
+/// a packet payload: only the last frame may lack a length
+fn frames_strategy(max: usize) -> BoxedStrategy<Vec<RefFrame>> {
+    pvec(frame_strategy(), 1..max)
+        .prop_map(|mut frames| {
+            let n = frames.len();
+            for f in frames.iter_mut().take(n - 1) {
+                match f {
+                    RefFrame::Stream { len_bit, .. } | RefFrame::Datagram { len_bit, .. } => *len_bit = true,
+                    _ => {}
+                }
+            }
+            frames
+        })
+        .boxed()
+}
+
+/// position of the last byte of the length field of a frame encoded at `start..end`
+/// (the length varint directly precedes the data it counts)
+fn len_field_pos(f: &RefFrame, start: usize, end: usize) -> Option<usize> {
+    let back = match f {
+        RefFrame::Crypto { data, .. } => data.len(),
+        RefFrame::NewToken { token } => token.len(),
+        RefFrame::Stream { len_bit: true, data, .. } | RefFrame::Datagram { len_bit: true, data } => data.len(),
+        RefFrame::ConnectionCloseTransport { reason, .. } | RefFrame::ConnectionCloseApp { reason, .. } => reason.len(),
+        RefFrame::NewConnectionId { cid, .. } => cid.len() + 16,
+        // ACK Range Count (shortest-form layout): type, largest, delay, count
+        RefFrame::Ack { largest, delay, ranges, .. } => {
+            let p = start + varint_len(*largest) + varint_len(*delay) + varint_len(ranges.len() as u64);
+            return (p < end).then_some(p);
+        }
+        _ => return None,
+    };
+    (end - start > back).then(|| end - back - 1)
+}
+
+fn encode_sequence(frames: &[RefFrame], bumps: &[u8]) -> (Vec<u8>, Vec<usize>) {
+    let mut out = vec![];
+    let mut len_fields = vec![];
+    for f in frames {
+        let start = out.len();
+        encode_frame_opts(f, &mut out, EncodeOpts { type_bump: 0, bumps });
+        if let Some(p) = len_field_pos(f, start, out.len()) {
+            len_fields.push(p);
+        }
+    }
+    (out, len_fields)
+}
+
+// ---------------------------------------------------------------------------------------
+// frame differential
+
+/// The form s2n's value types can hold: an OFF bit with offset 0 is not represented
+/// (RFC 9000 §19.8: with the OFF bit clear "the Stream Data starts at an offset of 0").
+fn canonical(f: &RefFrame) -> RefFrame {
+    match f {
+        RefFrame::Stream { stream_id, offset: Some(0), len_bit, fin, data } => RefFrame::Stream {
+            stream_id: *stream_id,
+            offset: None,
+            len_bit: *len_bit,
+            fin: *fin,
+            data: data.clone(),
+        },
+        other => other.clone(),
+    }
+}
+
+macro_rules! same {
+    ($field:expr, $r:expr, $s:expr) => {
+        if $r != $s {
+            return Err(format!("field `{}`: reference {:?}, s2n {:?}", $field, $r, $s));
+        }
+    };
+}
+
+fn bytes_brief(b: &[u8]) -> String {
+    format!("[{} bytes {}]", b.len(), hex(&b[..b.len().min(24)]))
+}
+
+/// field-by-field comparison of a reference frame with what s2n decoded
+fn cmp_frame(r: &RefFrame, s: &FrameMut) -> Result<(), String> {
+    use s2n_quic_core::frame::Frame as F;
+    use s2n_quic_core::stream::StreamType;
+    match (r, s) {
+        (RefFrame::Padding { len }, F::Padding(p)) => same!("length", *len, p.length),
+        (RefFrame::Ping, F::Ping(_)) => {}
+        (RefFrame::Ack { largest, delay, ecn, .. }, F::Ack(a)) => {
+            same!("largest_acknowledged", *largest, a.largest_acknowledged().as_u64());
+            same!("ack_delay", *delay, a.ack_delay.as_u64());
+            let got: Vec<(u64, u64)> = a.ack_ranges().map(|x| (x.start().as_u64(), x.end().as_u64())).collect();
+            let want = r.ack_ranges();
+            same!("ack_ranges (smallest, largest)", want, Some(got.clone()));
+            let got_ecn = a.ecn_counts.map(|e| RefEcn { ect0: e.ect_0_count.as_u64(), ect1: e.ect_1_count.as_u64(), ce: e.ce_count.as_u64() });
+            same!("ecn_counts", *ecn, got_ecn);
+        }
+        (RefFrame::ResetStream { stream_id, error_code, final_size }, F::ResetStream(x)) => {
+            same!("stream_id", *stream_id, x.stream_id.as_u64());
+            same!("application_error_code", *error_code, x.application_error_code.as_u64());
+            same!("final_size", *final_size, x.final_size.as_u64());
+        }
+        (RefFrame::StopSending { stream_id, error_code }, F::StopSending(x)) => {
+            same!("stream_id", *stream_id, x.stream_id.as_u64());
+            same!("application_error_code", *error_code, x.application_error_code.as_u64());
+        }
+        (RefFrame::Crypto { offset, data }, F::Crypto(x)) => {
+            same!("offset", *offset, x.offset.as_u64());
+            same!("data", bytes_brief(data), bytes_brief(x.data.as_less_safe_slice()));
+            same!("data", &data[..], x.data.as_less_safe_slice());
+        }
+        (RefFrame::NewToken { token }, F::NewToken(x)) => same!("token", &token[..], x.token),
+        (RefFrame::Stream { stream_id, offset, len_bit, fin, data }, F::Stream(x)) => {
+            same!("stream_id", *stream_id, x.stream_id.as_u64());
+            same!("offset", offset.unwrap_or(0), x.offset.as_u64());
+            same!("is_last_frame (= LEN bit clear)", !*len_bit, x.is_last_frame);
+            same!("is_fin", *fin, x.is_fin);
+            same!("data", bytes_brief(data), bytes_brief(x.data.as_less_safe_slice()));
+            same!("data", &data[..], x.data.as_less_safe_slice());
+        }
+        (RefFrame::MaxData { max }, F::MaxData(x)) => same!("maximum_data", *max, x.maximum_data.as_u64()),
+        (RefFrame::MaxStreamData { stream_id, max }, F::MaxStreamData(x)) => {
+            same!("stream_id", *stream_id, x.stream_id.as_u64());
+            same!("maximum_stream_data", *max, x.maximum_stream_data.as_u64());
+        }
+        (RefFrame::MaxStreams { bidi, max }, F::MaxStreams(x)) => {
+            same!("stream_type is bidirectional", *bidi, x.stream_type == StreamType::Bidirectional);
+            same!("maximum_streams", *max, x.maximum_streams.as_u64());
+        }
+        (RefFrame::DataBlocked { limit }, F::DataBlocked(x)) => same!("data_limit", *limit, x.data_limit.as_u64()),
+        (RefFrame::StreamDataBlocked { stream_id, limit }, F::StreamDataBlocked(x)) => {
+            same!("stream_id", *stream_id, x.stream_id.as_u64());
+            same!("stream_data_limit", *limit, x.stream_data_limit.as_u64());
+        }
+        (RefFrame::StreamsBlocked { bidi, limit }, F::StreamsBlocked(x)) => {
+            same!("stream_type is bidirectional", *bidi, x.stream_type == StreamType::Bidirectional);
+            same!("stream_limit", *limit, x.stream_limit.as_u64());
+        }
+        (RefFrame::NewConnectionId { seq, retire_prior_to, cid, reset_token }, F::NewConnectionId(x)) => {
+            same!("sequence_number", *seq, x.sequence_number.as_u64());
+            same!("retire_prior_to", *retire_prior_to, x.retire_prior_to.as_u64());
+            same!("connection_id", &cid[..], x.connection_id);
+            same!("stateless_reset_token", reset_token, x.stateless_reset_token);
+        }
+        (RefFrame::RetireConnectionId { seq }, F::RetireConnectionId(x)) => same!("sequence_number", *seq, x.sequence_number.as_u64()),
+        (RefFrame::PathChallenge { data }, F::PathChallenge(x)) => same!("data", data, x.data),
+        (RefFrame::PathResponse { data }, F::PathResponse(x)) => same!("data", data, x.data),
+        (RefFrame::ConnectionCloseTransport { error_code, frame_type, reason }, F::ConnectionClose(x)) => {
+            same!("error_code", *error_code, x.error_code.as_u64());
+            same!("frame_type", Some(*frame_type), x.frame_type.map(|v| v.as_u64()));
+            same!("reason", &reason[..], x.reason.unwrap_or(&[]));
+        }
+        (RefFrame::ConnectionCloseApp { error_code, reason }, F::ConnectionClose(x)) => {
+            same!("error_code", *error_code, x.error_code.as_u64());
+            same!("frame_type", None::<u64>, x.frame_type.map(|v| v.as_u64()));
+            same!("reason", &reason[..], x.reason.unwrap_or(&[]));
+        }
+        (RefFrame::HandshakeDone, F::HandshakeDone(_)) => {}
+        (RefFrame::Datagram { len_bit, data }, F::Datagram(x)) => {
+            same!("is_last_frame (= LEN bit clear)", !*len_bit, x.is_last_frame);
+            same!("data", bytes_brief(data), bytes_brief(x.data.as_less_safe_slice()));
+            same!("data", &data[..], x.data.as_less_safe_slice());
+        }
+        (r, s) => {
+            let s = format!("{s:?}");
+            return Err(format!("frame kind: reference {}, s2n {}", r.name(), &s[..s.len().min(60)]));
+        }
+    }
+    Ok(())
+}
+
+fn invalid_class(k: InvalidKind, accepted: bool) -> &'static str {
+    use InvalidKind::*;
+    match (k, accepted) {
+        (NonMinimalFrameType, _) => "latitude:nonminimal-type",
+        (AckRangeUnderflow, true) => "deferred:ack-range-underflow",
+        (AckRangeUnderflow, false) => "invalid-rejected:ack-range-underflow",
+        (CryptoOffsetOverflow, true) => "deferred:crypto-offset-overflow",
+        (CryptoOffsetOverflow, false) => "invalid-rejected:crypto-offset-overflow",
+        (EmptyNewToken, true) => "deferred:empty-new-token",
+        (EmptyNewToken, false) => "invalid-rejected:empty-new-token",
+        (StreamOffsetOverflow, true) => "deferred:stream-offset-overflow",
+        (StreamOffsetOverflow, false) => "invalid-rejected:stream-offset-overflow",
+        (MaxStreamsTooLarge, true) => "deferred:max-streams-too-large",
+        (MaxStreamsTooLarge, false) => "invalid-rejected:max-streams-too-large",
+        (StreamsBlockedTooLarge, true) => "deferred:streams-blocked-too-large",
+        (StreamsBlockedTooLarge, false) => "invalid-rejected:streams-blocked-too-large",
+        (NewConnectionIdLength, true) => "deferred:new-connection-id-length",
+        (NewConnectionIdLength, false) => "invalid-rejected:new-connection-id-length",
+        (RetirePriorToExceedsSequence, true) => "deferred:retire-prior-to",
+        (RetirePriorToExceedsSequence, false) => "invalid-rejected:retire-prior-to",
+        (ConnectionIdTooLong, true) => "deferred:connection-id-too-long",
+        (ConnectionIdTooLong, false) => "invalid-rejected:connection-id-too-long",
+        (EmptyRetryToken, true) => "deferred:empty-retry-token",
+        (EmptyRetryToken, false) => "invalid-rejected:empty-retry-token",
+        (EmptyVersionList, true) => "deferred:empty-version-list",
+        (EmptyVersionList, false) => "invalid-rejected:empty-version-list",
+    }
+}
+
+fn static_name(f: &RefFrame) -> &'static str {
+    let n = f.name();
+    FRAME_NAMES.iter().copied().find(|x| *x == n).unwrap_or("?")
+}
+
+/// s2n-quic's private frame types (`frame/mod.rs`: `extension[...]` entries)
+const S2N_EXTENSION_FRAME_TYPES: [u64; 2] = [0xdc0000, 0xdc0002];
+
+enum Step {
+    /// both decoded a frame of `consumed` bytes
+    Next { consumed: usize, multi_field: bool },
+    /// decoding of this payload ends here (both rejected, or a latitude class)
+    Stop,
+}
+
+/// Differential for the frame at the front of `buf` (which ends where the packet payload
+/// ends). On agreement also checks that s2n re-encodes the frame in the canonical shortest
+/// form with the announced size.
+fn diff_one_frame(buf: &[u8], obs: &mut Obs) -> Result<Step, Fail> {
+    let r = parse_frame_ext(buf);
+    let is_ext = matches!(decode_varint(buf), Ok((t, _)) if S2N_EXTENSION_FRAME_TYPES.contains(&t));
+
+    let mut copy = buf.to_vec();
+    let total = copy.len();
+    let s = DecoderBufferMut::new(&mut copy).decode::<FrameMut>();
+
+    if is_ext {
+        // not an RFC 9000/9221 frame: s2n only has to survive it
+        obs.class("skip:s2n-extension");
+        return Ok(Step::Stop);
+    }
+
+    let p = match r {
+        Err(e) => {
+            if let Ok((f, rest)) = &s {
+                let d = format!("{f:?}");
+                fail!(
+                    format!("frame:s2n-accepts-malformed:{}", malformed_key(&e)),
+                    "payload {}: reference parser rejects it ({e:?}) but s2n decodes {} consuming {} bytes",
+                    hex(buf),
+                    &d[..d.len().min(200)],
+                    total - rest.len()
+                );
+            }
+            obs.class("outcome:both-reject");
+            return Ok(Step::Stop);
+        }
+        Ok(p) => p,
+    };
+    let name = static_name(&p.frame);
+    let invalid = if p.type_len != 1 {
+        Some(InvalidKind::NonMinimalFrameType)
+    } else {
+        p.frame.validate().err()
+    };
+    let (sf, rest_len) = match s {
+        Ok((f, rest)) => {
+            let n = rest.len();
+            (f, n)
+        }
+        Err(e) => {
+            match invalid {
+                Some(k) => {
+                    obs.class(invalid_class(k, false));
+                    return Ok(Step::Stop);
+                }
+                None => fail!(
+                    format!("frame:s2n-rejects-valid:{name}"),
+                    "payload {}: reference decodes a valid {:?} ({} bytes), s2n fails with {e:?}",
+                    hex(buf),
+                    brief(&p.frame),
+                    p.consumed
+                ),
+            }
+        }
+    };
+    if let Some(k) = invalid {
+        obs.class(invalid_class(k, true));
+    }
+    if let Err(why) = cmp_frame(&p.frame, &sf) {
+        fail!(format!("frame:field-mismatch:{name}"), "payload {}: {why} (reference frame {:?})", hex(buf), brief(&p.frame));
+    }
+    let consumed = total - rest_len;
+    ensure_that!(
+        consumed == p.consumed,
+        format!("frame:consumed-mismatch:{name}"),
+        "payload {}: s2n consumed {consumed} bytes, the reference parser {} for {:?}",
+        hex(buf),
+        p.consumed,
+        brief(&p.frame)
+    );
+    // everything s2n emits is the shortest encoding of the value, of the announced size
+    if p.type_len == 1 {
+        let mut canon = vec![];
+        encode_frame(&canonical(&p.frame), &mut canon);
+        s2n_encode_checked(&sf, &canon, &format!("frame:encode:{name}"))?;
+        obs.class_if(!p.minimal, "input:non-minimal-varints");
+    }
+    obs.class(name);
+    obs.class("outcome:agree-value");
+    Ok(Step::Next { consumed, multi_field: p.frame.is_multi_field() })
+}
+
+fn malformed_key(e: &RefError) -> &'static str {
+    use refquic::MalformedKind::*;
+    match e {
+        RefError::Malformed(Truncated) => "truncated",
+        RefError::Malformed(Empty) => "empty",
+        RefError::Malformed(UnknownFrameType(_)) => "unknown-frame-type",
+        RefError::Malformed(_) => "other",
+        RefError::Invalid(_) => "invalid",
+    }
+}
+
+/// frame with long payloads abbreviated (for messages)
+fn brief(f: &RefFrame) -> String {
+    let s = format!("{f:?}");
+    if s.len() > 300 {
+        format!("{}…", &s[..300])
+    } else {
+        s
+    }
+}
+
+/// Differential over a whole packet payload; returns the number of complete multi-field
+/// frames both decoders agreed on.
+fn diff_payload(buf: &[u8], obs: &mut Obs) -> Result<usize, Fail> {
+    let mut off = 0;
+    let mut multi = 0;
+    let mut steps = 0;
+    while off < buf.len() {
+        steps += 1;
+        ensure_that!(steps <= buf.len(), "frame:no-progress", "decoding loop did not advance on payload {}", hex(buf));
+        match diff_one_frame(&buf[off..], obs)? {
+            Step::Next { consumed, multi_field } => {
+                ensure_that!(consumed >= 1, "frame:no-progress", "a frame of zero bytes was decoded at offset {off} of {}", hex(buf));
+                off += consumed;
+                multi += multi_field as usize;
+            }
+            Step::Stop => break,
+        }
+    }
+    obs.units += steps as u64;
+    Ok(multi)
+}
+
+// ---------------------------------------------------------------------------------------
+// sub-check `frame_values`
+
+#[derive(Clone, Debug, Hash, PartialEq, Eq, Serialize, Deserialize)]
+pub struct FrameValueCase {
+    pub frame: RefFrame,
+    /// width bumps for the second, non-minimal encoding of the same value
+    pub bumps: Vec<u8>,
+    /// capacity offered to `try_fit`, relative to the full frame size
+    pub fit_delta: i16,
+}
+
+fn has_explicit_extent(f: &RefFrame) -> bool {
+    !matches!(f, RefFrame::Stream { len_bit: false, .. } | RefFrame::Datagram { len_bit: false, .. })
+}
+
+fn frame_value_oracle(case: &FrameValueCase, obs: &mut Obs) -> CaseResult {
+    let f = &case.frame;
+    let mut bytes = vec![];
+    encode_frame(f, &mut bytes);
+    let own_len = bytes.len();
+    // a following PING shows that exactly the frame's own bytes are consumed
+    if has_explicit_extent(f) {
+        bytes.push(0x01);
+    }
+    let valid = f.validate().is_ok();
+    match diff_one_frame(&bytes, obs)? {
+        Step::Next { consumed, .. } => {
+            ensure_that!(consumed == own_len, format!("frame:consumed-mismatch:{}", static_name(f)), "frame {:?} occupies {own_len} bytes, decoders consumed {consumed}", brief(f));
+        }
+        Step::Stop => {
+            ensure_that!(!valid, "harness:valid-frame-stopped", "valid generated frame was not decoded: {:?}", brief(f));
+        }
+    }
+    obs.nontrivial(valid && f.is_multi_field());
+    obs.class_if(!valid, "value:invalid-by-rfc");
+
+    // the same value with wider varints must decode to the same fields
+    if !case.bumps.is_empty() {
+        let mut wide = vec![];
+        encode_frame_opts(f, &mut wide, EncodeOpts { type_bump: 0, bumps: &case.bumps });
+        let wide_len = wide.len();
+        if has_explicit_extent(f) {
+            wide.push(0x01);
+        }
+        if let Step::Next { consumed, .. } = diff_one_frame(&wide, obs)? {
+            ensure_that!(consumed == wide_len, format!("frame:consumed-mismatch:{}", static_name(f)), "non-minimal encoding of {:?} occupies {wide_len} bytes, decoders consumed {consumed}", brief(f));
+        }
+        obs.class_if(wide_len != own_len, "value:non-minimal-encoding");
+    }
+
+    // try_fit: the announced number of data bytes must lead to a frame that fits
+    if valid {
+        try_fit_check(f, case.fit_delta, obs)?;
+    }
+    Ok(())
+}
+
+/// `Stream::try_fit` / `Crypto::try_fit` announce how many data bytes fit into `capacity`.
+/// Contract checked (from their doc comments and callers): on `Ok(n)`, the frame with its
+/// data cut to `n` bytes encodes to at most `capacity` bytes — exactly `capacity` if the
+/// STREAM frame was turned into a "last frame" (no length, extends to the end of the packet,
+/// RFC 9000 §19.8) — and decodes back to the same value; `Err` only if not even the fields
+/// before the data fit.
+fn try_fit_check(f: &RefFrame, fit_delta: i16, obs: &mut Obs) -> CaseResult {
+    use s2n_quic_core::frame::{Crypto, Stream};
+    let mut full = vec![];
+    encode_frame(&canonical(f), &mut full);
+    let capacity = (full.len() as i64 + fit_delta as i64).max(0) as usize;
+    match f {
+        RefFrame::Stream { stream_id, offset, fin, data, .. } => {
+            let off = offset.unwrap_or(0);
+            let mut s = Stream {
+                stream_id: VarInt::new(*stream_id).unwrap(),
+                offset: VarInt::new(off).unwrap(),
+                is_last_frame: false,
+                is_fin: *fin,
+                data: &data[..],
+            };
+            let fixed = 1 + varint_len(*stream_id) + if off != 0 { varint_len(off) } else { 0 };
+            match s.try_fit(capacity) {
+                Ok(n) => {
+                    ensure_that!(n <= data.len(), "frame:try-fit:STREAM", "try_fit({capacity}) announced {n} data bytes of {}", data.len());
+                    s.data = &data[..n];
+                    let expect = RefFrame::Stream {
+                        stream_id: *stream_id,
+                        offset: if off != 0 { Some(off) } else { None },
+                        len_bit: !s.is_last_frame,
+                        fin: *fin,
+                        data: data[..n].to_vec(),
+                    };
+                    let mut eb = vec![];
+                    encode_frame(&expect, &mut eb);
+                    s2n_encode_checked(&s, &eb, "frame:try-fit-encode:STREAM")?;
+                    ensure_that!(eb.len() <= capacity, "frame:try-fit:STREAM", "try_fit({capacity}) announced {n} data bytes but the frame then takes {} bytes", eb.len());
+                    ensure_that!(!s.is_last_frame || eb.len() == capacity, "frame:try-fit:STREAM", "try_fit({capacity}) dropped the length field although the frame ({} bytes) does not fill the capacity", eb.len());
+                    obs.class(if s.is_last_frame { "try_fit:last-frame" } else if n < data.len() { "try_fit:cut" } else { "try_fit:whole" });
+                }
+                Err(_) => {
+                    ensure_that!(capacity < fixed, "frame:try-fit:STREAM", "try_fit({capacity}) failed although the {fixed} header bytes fit");
+                    obs.class("try_fit:no-room");
+                }
+            }
+        }
+        RefFrame::Crypto { offset, data } => {
+            let mut c = Crypto { offset: VarInt::new(*offset).unwrap(), data: &data[..] };
+            let fixed = 1 + varint_len(*offset);
+            match c.try_fit(capacity) {
+                Ok(n) => {
+                    ensure_that!(n <= data.len(), "frame:try-fit:CRYPTO", "try_fit({capacity}) announced {n} data bytes of {}", data.len());
+                    c.data = &data[..n];
+                    let mut eb = vec![];
+                    encode_frame(&RefFrame::Crypto { offset: *offset, data: data[..n].to_vec() }, &mut eb);
+                    s2n_encode_checked(&c, &eb, "frame:try-fit-encode:CRYPTO")?;
+                    ensure_that!(eb.len() <= capacity, "frame:try-fit:CRYPTO", "try_fit({capacity}) announced {n} data bytes but the frame then takes {} bytes", eb.len());
+                    obs.class(if n < data.len() { "try_fit:cut" } else { "try_fit:whole" });
+                }
+                Err(_) => {
+                    // the length prefix needs at least one byte
+                    ensure_that!(capacity < fixed + 1, "frame:try-fit:CRYPTO", "try_fit({capacity}) failed although {fixed} header bytes and a length fit");
+                    obs.class("try_fit:no-room");
+                }
+            }
+        }
+        _ => {}
+    }
+    Ok(())
+}
+
+fn frame_value_strategy(_t: Tier) -> BoxedStrategy<FrameValueCase> {
+    (
+        frame_strategy(),
+        bumps_strategy(),
+        prop_oneof![3 => -4i16..4, 2 => -80i16..20, 1 => Just(0i16), 1 => -20000i16..10],
+    )
+        .prop_map(|(frame, bumps, fit_delta)| FrameValueCase { frame, bumps, fit_delta })
+        .boxed()
+}
+
+// ---------------------------------------------------------------------------------------
+// sub-check `frame_bytes`
+
+#[derive(Clone, Debug, Hash, PartialEq, Eq, Serialize, Deserialize)]
+pub enum FrameBytesCase {
+    /// valid sequence from the reference encoder (non-minimal varints per `bumps`,
+    /// `type_bump` widens the type of the first frame), checked at every truncation length
+    Grammar { frames: Vec<RefFrame>, bumps: Vec<u8>, type_bump: u8 },
+    Mutated { frames: Vec<RefFrame>, bumps: Vec<u8>, muts: Vec<Mutation> },
+    /// head of one valid sequence followed by the tail of another
+    Splice { a: Vec<RefFrame>, b: Vec<RefFrame>, cut_a: u16, cut_b: u16 },
+    Raw(Vec<u8>),
+    /// first byte is a frame type, the rest random
+    Tagged { tag: u8, rest: Vec<u8> },
+    /// a sample file shipped with the repo (`frame/test_samples`), mutated
+    Sample { which: u16, muts: Vec<Mutation> },
+}
+
+fn frame_bytes_oracle(case: &FrameBytesCase, obs: &mut Obs) -> CaseResult {
+    let (bytes, near_valid): (Vec<u8>, bool) = match case {
+        FrameBytesCase::Grammar { frames, bumps, type_bump } => {
+            obs.class("family:grammar");
+            let (mut bytes, _) = encode_sequence(frames, bumps);
+            if *type_bump > 0 && !matches!(frames[0], RefFrame::Padding { .. }) {
+                let mut first = vec![];
+                encode_frame_opts(&frames[0], &mut first, EncodeOpts { type_bump: 0, bumps });
+                let mut wide = vec![];
+                encode_frame_opts(&frames[0], &mut wide, EncodeOpts { type_bump: *type_bump, bumps });
+                bytes.splice(..first.len(), wide);
+            }
+            // truncation at every length (bounded for the few very long payloads)
+            if bytes.len() <= 160 {
+                for cut in 0..bytes.len() {
+                    let mut scratch = Obs::default();
+                    diff_payload(&bytes[..cut], &mut scratch)?;
+                    obs.units += scratch.units;
+                }
+                obs.class("grammar:all-truncations");
+            }
+            (bytes, true)
+        }
+        FrameBytesCase::Mutated { frames, bumps, muts } => {
+            obs.class("family:mutated");
+            let (mut bytes, len_fields) = encode_sequence(frames, bumps);
+            apply_mutations(&mut bytes, &len_fields, muts);
+            let valid_multi = frames.iter().any(|f| f.is_multi_field() && f.validate().is_ok());
+            (bytes, muts.len() <= 2 && valid_multi)
+        }
+        FrameBytesCase::Splice { a, b, cut_a, cut_b } => {
+            obs.class("family:splice");
+            let (mut x, _) = encode_sequence(a, &[]);
+            let (y, _) = encode_sequence(b, &[]);
+            x.truncate(pick_index(*cut_a, x.len() + 1));
+            x.extend_from_slice(&y[pick_index(*cut_b, y.len() + 1)..]);
+            (x, false)
+        }
+        FrameBytesCase::Raw(b) => {
+            obs.class("family:raw");
+            (b.clone(), false)
+        }
+        FrameBytesCase::Tagged { tag, rest } => {
+            obs.class("family:tagged");
+            let mut b = vec![*tag];
+            b.extend_from_slice(rest);
+            (b, false)
+        }
+        FrameBytesCase::Sample { which, muts } => {
+            let samples = frame_samples();
+            if samples.is_empty() {
+                obs.class("family:sample-files-missing");
+                return Ok(());
+            }
+            obs.class("family:sample");
+            let mut b = samples[pick_index(*which, samples.len())].1.clone();
+            apply_mutations(&mut b, &[], muts);
+            (b, muts.len() <= 2)
+        }
+    };
+    let multi = diff_payload(&bytes, obs)?;
+    obs.nontrivial(multi >= 1 || near_valid);
+    obs.class_if(multi >= 1, "decoded:multi-field-frame");
+    obs.sample = Some(serde_json::json!({ "payload": hex(&bytes), "multi_field_frames_decoded": multi }));
+    Ok(())
+}
+
+/// every RFC 9000 / 9221 frame type plus its neighbours and s2n's extension prefix
+fn tag_strategy() -> BoxedStrategy<u8> {
+    prop_oneof![8 => 0u8..0x20, 2 => 0x30u8..0x32, 1 => 0x20u8..0x40, 1 => Just(0x80u8), 1 => 0x40u8..=0xff].boxed()
+}
+
+fn frame_bytes_strategy(_t: Tier) -> BoxedStrategy<FrameBytesCase> {
+    prop_oneof![
+        5 => (frames_strategy(5), bumps_strategy(), prop_oneof![12 => Just(0u8), 1 => 1u8..4])
+            .prop_map(|(frames, bumps, type_bump)| FrameBytesCase::Grammar { frames, bumps, type_bump }),
+        9 => (frames_strategy(4), bumps_strategy(), prop_oneof![5 => pvec(mutation_strategy(), 1..3), 1 => pvec(mutation_strategy(), 3..7)])
+            .prop_map(|(frames, bumps, muts)| FrameBytesCase::Mutated { frames, bumps, muts }),
+        2 => (frames_strategy(4), frames_strategy(4), any::<u16>(), any::<u16>())
+            .prop_map(|(a, b, cut_a, cut_b)| FrameBytesCase::Splice { a, b, cut_a, cut_b }),
+        2 => pvec(any::<u8>(), 0..48).prop_map(FrameBytesCase::Raw),
+        4 => (tag_strategy(), pvec(prop_oneof![3 => any::<u8>(), 2 => 0u8..4, 1 => Just(0x40u8), 1 => Just(0xc0u8)], 0..40))
+            .prop_map(|(tag, rest)| FrameBytesCase::Tagged { tag, rest }),
+        2 => (any::<u16>(), pvec(mutation_strategy(), 0..4)).prop_map(|(which, muts)| FrameBytesCase::Sample { which, muts }),
+    ]
+    .boxed()
+}
+
+// ---------------------------------------------------------------------------------------
+// sub-check `packet_headers`
+
+use refquic::{encode_header, parse_header, RefHeader, RefPacketType, QUIC_V1};
+use s2n_quic_core::packet::ProtectedPacket;
+
+#[derive(Clone, Debug, Hash, PartialEq, Eq, Serialize, Deserialize)]
+pub struct HdrSpec {
+    /// 0 Initial, 1 0-RTT, 2 Handshake, 3 Retry, 4 Version Negotiation, 5 Short
+    pub ty: u8,
+    /// the bits of the first byte that are not determined by the type
+    pub low_bits: u8,
+    pub version: u32,
+    pub dcid: Vec<u8>,
+    pub scid: Vec<u8>,
+    pub token: Vec<u8>,
+    /// bytes after the header (packet number + payload)
+    pub body: Vec<u8>,
+    pub versions: Vec<u32>,
+    pub token_len_bump: u8,
+    pub length_bump: u8,
+}
+
+#[derive(Clone, Debug, Hash, PartialEq, Eq, Serialize, Deserialize)]
+pub enum HeaderCase {
+    /// 1..3 coalesced packets (only the last may be Retry / VN / Short), then mutations
+    Gen { packets: Vec<HdrSpec>, short_dcid_len: u8, muts: Vec<Mutation> },
+    Raw { bytes: Vec<u8>, short_dcid_len: u8 },
+    Sample { which: u16, muts: Vec<Mutation>, short_dcid_len: u8 },
+}
+
+fn spec_header(s: &HdrSpec, short_dcid_len: usize) -> RefHeader {
+    let (ty, first) = match s.ty {
+        0 => (RefPacketType::Initial, 0xc0 | (s.low_bits & 0x0f)),
+        1 => (RefPacketType::ZeroRtt, 0xd0 | (s.low_bits & 0x0f)),
+        2 => (RefPacketType::Handshake, 0xe0 | (s.low_bits & 0x0f)),
+        3 => (RefPacketType::Retry, 0xf0 | (s.low_bits & 0x0f)),
+        4 => (RefPacketType::VersionNegotiation, 0x80 | (s.low_bits & 0x7f)),
+        _ => (RefPacketType::Short, 0x40 | (s.low_bits & 0x3f)),
+    };
+    let mut dcid = s.dcid.clone();
+    if ty == RefPacketType::Short {
+        // a short header carries the connection id the receiver expects
+        dcid = prf_vec(s.version as u64 ^ 0xdc1d, 0, short_dcid_len);
+    }
+    RefHeader {
+        ty,
+        offset: 0,
+        first_byte: first,
+        version: Some(if ty == RefPacketType::VersionNegotiation { 0 } else { s.version }),
+        dcid,
+        scid: Some(s.scid.clone()),
+        token: Some(s.token.clone()),
+        length: None,
+        pn_offset: None,
+        packet_len: 0,
+        versions: s.versions.clone(),
+        integrity_tag: Some({
+            let mut t = [0u8; 16];
+            prf_fill(s.version as u64 ^ 0x7a6, 0, &mut t);
+            t
+        }),
+        minimal: true,
+    }
+}
+
+/// `ProtectedPayload`'s fields are crate-private; its (non-alternate) Debug output is
+/// `ProtectedPayload { header_len: N, buffer_len: M }`.
+fn header_len_of(payload: &impl core::fmt::Debug) -> usize {
+    let s = format!("{payload:?}");
+    let i = s.find("header_len: ").expect("ProtectedPayload Debug format changed") + 12;
+    s[i..].chars().take_while(|c| c.is_ascii_digit()).collect::<String>().parse().expect("header_len")
+}
+
+fn header_type_name(t: RefPacketType) -> &'static str {
+    match t {
+        RefPacketType::Initial => "Initial",
+        RefPacketType::ZeroRtt => "ZeroRtt",
+        RefPacketType::Handshake => "Handshake",
+        RefPacketType::Retry => "Retry",
+        RefPacketType::VersionNegotiation => "VersionNegotiation",
+        RefPacketType::Short => "Short",
+    }
+}
+
+/// compares one decoded packet with the reference header; returns the header length s2n
+/// reports (None for Retry / Version Negotiation)
+fn cmp_header(h: &RefHeader, p: &ProtectedPacket) -> Result<Option<usize>, String> {
+    let scid = h.scid.as_deref().unwrap_or(&[]);
+    let token = h.token.as_deref().unwrap_or(&[]);
+    match (h.ty, p) {
+        (RefPacketType::Short, ProtectedPacket::Short(x)) => {
+            same!("destination_connection_id", &h.dcid[..], x.destination_connection_id());
+            same!("packet length", h.packet_len, x.payload.len());
+            Ok(Some(header_len_of(&x.payload)))
+        }
+        (RefPacketType::Initial, ProtectedPacket::Initial(x)) => {
+            same!("version", h.version, Some(x.version));
+            same!("destination_connection_id", &h.dcid[..], x.destination_connection_id());
+            same!("source_connection_id", scid, x.source_connection_id());
+            same!("token", token, x.token());
+            same!("packet length", h.packet_len, x.payload.len());
+            Ok(Some(header_len_of(&x.payload)))
+        }
+        (RefPacketType::ZeroRtt, ProtectedPacket::ZeroRtt(x)) => {
+            same!("version", h.version, Some(x.version));
+            same!("destination_connection_id", &h.dcid[..], x.destination_connection_id());
+            same!("source_connection_id", scid, x.source_connection_id());
+            same!("packet length", h.packet_len, x.payload.len());
+            Ok(Some(header_len_of(&x.payload)))
+        }
+        (RefPacketType::Handshake, ProtectedPacket::Handshake(x)) => {
+            same!("version", h.version, Some(x.version));
+            same!("destination_connection_id", &h.dcid[..], x.destination_connection_id());
+            same!("source_connection_id", scid, x.source_connection_id());
+            same!("packet length", h.packet_len, x.payload.len());
+            Ok(Some(header_len_of(&x.payload)))
+        }
+        (RefPacketType::Retry, ProtectedPacket::Retry(x)) => {
+            same!("first byte", h.first_byte, x.tag);
+            same!("version", h.version, Some(x.version));
+            same!("destination_connection_id", &h.dcid[..], x.destination_connection_id);
+            same!("source_connection_id", scid, x.source_connection_id);
+            same!("retry_token", token, x.retry_token);
+            same!("retry_integrity_tag", h.integrity_tag.as_ref(), Some(x.retry_integrity_tag));
+            Ok(None)
+        }
+        (RefPacketType::VersionNegotiation, ProtectedPacket::VersionNegotiation(x)) => {
+            same!("first byte", h.first_byte, x.tag);
+            same!("destination_connection_id", &h.dcid[..], x.destination_connection_id);
+            same!("source_connection_id", scid, x.source_connection_id);
+            let v: Vec<u32> = x.iter().collect();
+            same!("supported_versions", &h.versions, &v);
+            Ok(None)
+        }
+        (t, p) => {
+            let d = format!("{p:?}");
+            Err(format!("packet type: reference {}, s2n {}", header_type_name(t), &d[..d.len().min(40)]))
+        }
+    }
+}
+
+/// With the no-op header/packet keys of `crypto::key::testing` the "protected" packet is
+/// read as cleartext: the packet number must be the bytes at the reference parser's
+/// `pn_offset` (expanded per A.3 against largest = 0) and the payload the rest of the packet.
+fn null_crypto_view(h: &RefHeader, pkt: &[u8], p: ProtectedPacket, obs: &mut Obs) -> CaseResult {
+    use s2n_quic_core::crypto::key::testing::{HeaderKey, Key};
+    use s2n_quic_core::packet::number::PacketNumberSpace as Space;
+    let Some(pn_offset) = h.pn_offset else { return Ok(()) };
+    let (pn, payload): (u64, Vec<u8>) = match p {
+        ProtectedPacket::Initial(x) => {
+            let Ok(e) = x.unprotect(&HeaderKey::new(), Space::Initial.new_packet_number(VarInt::ZERO)) else { return Ok(()) };
+            let Ok(c) = e.decrypt(&Key::new()) else { return Ok(()) };
+            (c.packet_number.as_u64(), c.payload.as_less_safe_slice().to_vec())
+        }
+        ProtectedPacket::Handshake(x) => {
+            let Ok(e) = x.unprotect(&HeaderKey::new(), Space::Handshake.new_packet_number(VarInt::ZERO)) else { return Ok(()) };
+            let Ok(c) = e.decrypt(&Key::new()) else { return Ok(()) };
+            (c.packet_number.as_u64(), c.payload.as_less_safe_slice().to_vec())
+        }
+        ProtectedPacket::ZeroRtt(x) => {
+            let Ok(e) = x.unprotect(&HeaderKey::new(), Space::ApplicationData.new_packet_number(VarInt::ZERO)) else { return Ok(()) };
+            let Ok(c) = e.decrypt(&Key::new()) else { return Ok(()) };
+            (c.packet_number.as_u64(), c.payload.as_less_safe_slice().to_vec())
+        }
+        ProtectedPacket::Short(x) => {
+            let Ok(e) = x.unprotect(&HeaderKey::new(), Space::ApplicationData.new_packet_number(VarInt::ZERO)) else { return Ok(()) };
+            let Ok(c) = e.decrypt(&Key::new()) else { return Ok(()) };
+            (c.packet_number.as_u64(), c.payload.as_less_safe_slice().to_vec())
+        }
+        _ => return Ok(()),
+    };
+    let pn_len = (h.first_byte & 0x03) as usize + 1;
+    let name = header_type_name(h.ty);
+    ensure_that!(pkt.len() >= pn_offset + pn_len, format!("hdr:cleartext-short:{name}"), "packet {}: s2n extracted a packet number although only {} bytes follow the header", hex(pkt), pkt.len() - pn_offset);
+    let mut t = 0u64;
+    for b in &pkt[pn_offset..pn_offset + pn_len] {
+        t = (t << 8) | *b as u64;
+    }
+    let want = refquic::decode_packet_number(0, t, 8 * pn_len as u32);
+    ensure_that!(pn == want, format!("hdr:cleartext-packet-number:{name}"), "packet {}: packet number bytes at offset {pn_offset} (len {pn_len}) are {t:#x} = {want}, s2n reports {pn}", hex(pkt));
+    ensure_that!(payload == pkt[pn_offset + pn_len..], format!("hdr:cleartext-payload:{name}"), "packet {}: payload should be the {} bytes after the packet number, s2n returns {} bytes", hex(pkt), pkt.len() - pn_offset - pn_len, payload.len());
+    obs.class("cleartext-view-compared");
+    Ok(())
+}
+
+/// returns the number of complete headers both decoders agreed on
+fn diff_datagram(dg: &[u8], short_dcid_len: usize, obs: &mut Obs) -> Result<usize, Fail> {
+    use s2n_quic_core::{connection::id::ConnectionInfo, inet::SocketAddress};
+    let addr = SocketAddress::default();
+    let info = ConnectionInfo::new(&addr);
+    let mut off = 0;
+    let mut agreed = 0;
+    while off < dg.len() {
+        let rest = &dg[off..];
+        let r = parse_header(rest, short_dcid_len);
+        let mut copy = rest.to_vec();
+        let total = copy.len();
+        let s = ProtectedPacket::decode(DecoderBufferMut::new(&mut copy), &info, &short_dcid_len);
+        let h = match r {
+            Err(e) => {
+                if let Ok((p, _)) = &s {
+                    let d = format!("{p:?}");
+                    fail!("hdr:s2n-accepts-malformed", "datagram {} at offset {off} (short dcid len {short_dcid_len}): reference parser rejects it ({e:?}), s2n decodes {}", hex(dg), &d[..d.len().min(160)]);
+                }
+                obs.class("outcome:both-reject");
+                break;
+            }
+            Ok(h) => h,
+        };
+        let name = header_type_name(h.ty);
+        let long_cid = h.dcid.len() > 20 || h.scid.as_ref().map_or(false, |c| c.len() > 20);
+        // which outcomes does the RFC allow?
+        let (must_accept, must_reject, class): (bool, bool, &'static str) = if h.is_long() && h.version != Some(QUIC_V1) && h.version != Some(0) {
+            // only the version-independent properties (RFC 8999) are known
+            (false, false, "latitude:unknown-version")
+        } else if h.ty == RefPacketType::VersionNegotiation && long_cid {
+            (false, false, "latitude:vn-long-cid")
+        } else {
+            match h.validate() {
+                Ok(()) => (true, false, "valid"),
+                // §17.2: "Endpoints that receive a version 1 long header with a value larger
+                // than 20 MUST drop the packet." s2n checks Initial packets after version
+                // negotiation (deferred), all other types in the decoder.
+                Err(InvalidKind::ConnectionIdTooLong) if h.ty == RefPacketType::Initial => (false, false, "deferred:initial-long-cid"),
+                Err(InvalidKind::ConnectionIdTooLong) => (false, true, "invalid:long-cid"),
+                Err(k) => (false, false, invalid_class(k, s.is_ok())),
+            }
+        };
+        obs.class(class);
+        let (p, remaining) = match s {
+            Err(e) => {
+                ensure_that!(!must_accept, format!("hdr:s2n-rejects-valid:{name}"), "datagram {} at offset {off} (short dcid len {short_dcid_len}): reference parses a valid {name} header ({} bytes, pn at {:?}), s2n fails with {e:?}", hex(dg), h.packet_len, h.pn_offset);
+                obs.class("outcome:s2n-rejects");
+                break;
+            }
+            Ok((p, rem)) => {
+                let n = rem.len();
+                (p, n)
+            }
+        };
+        ensure_that!(!must_reject, format!("hdr:s2n-accepts-long-cid:{name}"), "datagram {} at offset {off}: version 1 {name} header with a connection id of more than 20 bytes (dcid {}, scid {:?}) was accepted", hex(dg), h.dcid.len(), h.scid.as_ref().map(|c| c.len()));
+        let s2n_header_len = match cmp_header(&h, &p) {
+            Ok(x) => x,
+            Err(why) => fail!(format!("hdr:field-mismatch:{name}"), "datagram {} at offset {off} (short dcid len {short_dcid_len}): {why}", hex(dg)),
+        };
+        ensure_that!(s2n_header_len == h.pn_offset, format!("hdr:pn-offset:{name}"), "datagram {} at offset {off}: s2n header_len {s2n_header_len:?}, reference packet number offset {:?}", hex(dg), h.pn_offset);
+        let consumed = total - remaining;
+        ensure_that!(consumed == h.packet_len, format!("hdr:consumed-mismatch:{name}"), "datagram {} at offset {off}: s2n consumed {consumed} bytes, reference packet length {}", hex(dg), h.packet_len);
+        null_crypto_view(&h, &rest[..h.packet_len], p, obs)?;
+        obs.class(name);
+        obs.class_if(!h.minimal, "input:non-minimal-varints");
+        obs.class("outcome:agree-value");
+        agreed += 1;
+        ensure_that!(consumed >= 1, "hdr:no-progress", "a packet of zero bytes was decoded");
+        off += consumed;
+    }
+    obs.class_if(agreed >= 2, "coalesced>=2");
+    Ok(agreed)
+}
+
+fn header_oracle(case: &HeaderCase, obs: &mut Obs) -> CaseResult {
+    let (dg, n, near_valid) = match case {
+        HeaderCase::Gen { packets, short_dcid_len, muts } => {
+            let n = *short_dcid_len as usize;
+            let mut dg = vec![];
+            let mut len_fields = vec![];
+            for s in packets {
+                let h = spec_header(s, n);
+                let start = dg.len();
+                encode_header(&h, &s.body, s.token_len_bump, s.length_bump, &mut dg);
+                if matches!(h.ty, RefPacketType::Initial | RefPacketType::ZeroRtt | RefPacketType::Handshake) {
+                    // last byte of Length, and the two connection id length bytes
+                    len_fields.push(dg.len() - s.body.len() - 1);
+                }
+                if h.is_long() {
+                    len_fields.push(start + 5);
+                    len_fields.push(start + 6 + h.dcid.len());
+                }
+            }
+            obs.class(if muts.is_empty() { "family:grammar" } else { "family:mutated" });
+            if muts.is_empty() && dg.len() <= 200 {
+                for cut in 0..dg.len() {
+                    let mut scratch = Obs::default();
+                    diff_datagram(&dg[..cut], n, &mut scratch)?;
+                }
+            }
+            apply_mutations(&mut dg, &len_fields, muts);
+            (dg, n, muts.len() <= 2)
+        }
+        HeaderCase::Raw { bytes, short_dcid_len } => {
+            obs.class("family:raw");
+            (bytes.clone(), *short_dcid_len as usize, false)
+        }
+        HeaderCase::Sample { which, muts, short_dcid_len } => {
+            let samples = packet_samples();
+            if samples.is_empty() {
+                obs.class("family:sample-files-missing");
+                return Ok(());
+            }
+            obs.class("family:sample");
+            let mut b = samples[pick_index(*which, samples.len())].1.clone();
+            apply_mutations(&mut b, &[], muts);
+            (b, *short_dcid_len as usize, muts.len() <= 2)
+        }
+    };
+    let agreed = diff_datagram(&dg, n, obs)?;
+    obs.nontrivial(agreed >= 1 || near_valid);
+    obs.sample = Some(serde_json::json!({ "datagram": hex(&dg), "short_dcid_len": n, "headers_decoded": agreed }));
+    Ok(())
+}
+
+fn cid_strategy() -> BoxedStrategy<Vec<u8>> {
+    prop_oneof![
+        10 => (0usize..21, any::<u64>()).prop_map(|(n, k)| prf_vec(k, 0, n)),
+        2 => (prop_oneof![Just(20usize), Just(21), Just(22), Just(255)], any::<u64>()).prop_map(|(n, k)| prf_vec(k, 0, n)),
+        1 => (21usize..256, any::<u64>()).prop_map(|(n, k)| prf_vec(k, 0, n)),
+    ]
+    .boxed()
+}
+
+fn hdr_spec_strategy(last: bool) -> BoxedStrategy<HdrSpec> {
+    let ty = if last { prop_oneof![2 => 0u8..3, 1 => Just(3u8), 1 => Just(4u8), 3 => Just(5u8)].boxed() } else { (0u8..3).boxed() };
+    (
+        (ty, any::<u8>(), prop_oneof![12 => Just(1u32), 1 => Just(0u32), 1 => any::<u32>(), 1 => Just(0xff00_001du32), 1 => Just(0x6b33_43cfu32)]),
+        (cid_strategy(), cid_strategy()),
+        prop_oneof![3 => Just(vec![]), 4 => pvec(any::<u8>(), 1..40), 1 => (62usize..67, any::<u64>()).prop_map(|(n, k)| prf_vec(k, 0, n))],
+        prop_oneof![6 => (0usize..40, any::<u64>()).prop_map(|(n, k)| prf_vec(k, 0, n)), 2 => (62usize..67, any::<u64>()).prop_map(|(n, k)| prf_vec(k, 0, n)), 1 => (1190usize..1210, any::<u64>()).prop_map(|(n, k)| prf_vec(k, 0, n))],
+        prop_oneof![8 => pvec(prop_oneof![Just(1u32), any::<u32>()], 1..5), 1 => Just(vec![])],
+        (prop_oneof![5 => Just(0u8), 1 => 1u8..4], prop_oneof![5 => Just(0u8), 1 => 1u8..4]),
+    )
+        .prop_map(|((ty, low_bits, version), (dcid, scid), token, body, versions, (token_len_bump, length_bump))| HdrSpec {
+            ty,
+            low_bits,
+            version,
+            dcid,
+            scid,
+            token,
+            body,
+            versions,
+            token_len_bump,
+            length_bump,
+        })
+        .boxed()
+}
+
+fn header_strategy(_t: Tier) -> BoxedStrategy<HeaderCase> {
+    let packets = prop_oneof![
+        3 => hdr_spec_strategy(true).prop_map(|p| vec![p]),
+        2 => (hdr_spec_strategy(false), hdr_spec_strategy(true)).prop_map(|(a, b)| vec![a, b]),
+        1 => (hdr_spec_strategy(false), hdr_spec_strategy(false), hdr_spec_strategy(true)).prop_map(|(a, b, c)| vec![a, b, c]),
+    ];
+    prop_oneof![
+        10 => (packets, 0u8..21, prop_oneof![3 => Just(vec![]), 4 => pvec(mutation_strategy(), 1..3), 1 => pvec(mutation_strategy(), 3..6)])
+            .prop_map(|(packets, short_dcid_len, muts)| HeaderCase::Gen { packets, short_dcid_len, muts }),
+        2 => (pvec(any::<u8>(), 0..64), 0u8..21).prop_map(|(bytes, short_dcid_len)| HeaderCase::Raw { bytes, short_dcid_len }),
+        // long-header-looking noise
+        2 => (prop_oneof![Just(0xc0u8), Just(0xd1), Just(0xe2), Just(0xf3), Just(0x80), 0x80u8..=0xff], prop_oneof![4 => Just(1u32), 1 => Just(0u32), 1 => any::<u32>()], pvec(prop_oneof![2 => any::<u8>(), 3 => 0u8..24], 0..60), 0u8..21)
+            .prop_map(|(first, v, rest, short_dcid_len)| {
+                let mut bytes = vec![first];
+                bytes.extend_from_slice(&v.to_be_bytes());
+                bytes.extend_from_slice(&rest);
+                HeaderCase::Raw { bytes, short_dcid_len }
+            }),
+        2 => (any::<u16>(), pvec(mutation_strategy(), 0..4), prop_oneof![3 => Just(20u8), 1 => 0u8..21])
+            .prop_map(|(which, muts, short_dcid_len)| HeaderCase::Sample { which, muts, short_dcid_len }),
+    ]
+    .boxed()
+}
+
+// ---------------------------------------------------------------------------------------
+// sub-check `packet_numbers`
+
+#[derive(Clone, Debug, Hash, PartialEq, Eq, Serialize, Deserialize)]
+pub struct PnCase {
+    /// 0 Initial, 1 Handshake, 2 ApplicationData
+    pub space: u8,
+    /// largest acknowledged (truncate) / largest received (expand)
+    pub largest: u64,
+    /// full packet number = largest + delta (clamped to the packet number space)
+    pub delta: i64,
+    /// arbitrary truncated value for the expand differential
+    pub truncated: u32,
+    /// its length in bytes, 1..=4
+    pub len: u8,
+}
+
+fn pn_oracle(c: &PnCase, obs: &mut Obs) -> CaseResult {
+    use s2n_quic_core::packet::number::PacketNumberSpace as Space;
+    let space = [Space::Initial, Space::Handshake, Space::ApplicationData][c.space as usize % 3];
+    let largest = c.largest.min(VARINT_MAX);
+    let pn = (largest as i128 + c.delta as i128).clamp(0, VARINT_MAX as i128) as u64;
+    let s_largest = space.new_packet_number(VarInt::new(largest).unwrap());
+    let s_pn = space.new_packet_number(VarInt::new(pn).unwrap());
+
+    // --- expand an arbitrary truncated value (A.3)
+    let len = (c.len.clamp(1, 4)) as usize;
+    let bits = 8 * len as u32;
+    let t = if len == 4 { c.truncated as u64 } else { c.truncated as u64 & ((1u64 << bits) - 1) };
+    let be = (t as u32).to_be_bytes();
+    let wire = &be[4 - len..];
+    let pn_len = space.new_packet_number_len((len - 1) as u8);
+    ensure_that!(pn_len.bytesize() == len, "pn:len-from-tag", "packet number length bits {} give {} bytes", len - 1, pn_len.bytesize());
+    let (tpn, rest) = match pn_len.decode_truncated_packet_number(DecoderBuffer::new(wire)) {
+        Ok(x) => x,
+        Err(e) => fail!("pn:decode-truncated", "{len}-byte packet number {} failed to decode: {e:?}", hex(wire)),
+    };
+    ensure_that!(rest.is_empty(), "pn:decode-truncated", "{len}-byte packet number {} left {} bytes", hex(wire), rest.len());
+    ensure_that!(s2n_to_vec(&tpn) == wire, "pn:truncated-round-trip", "truncated packet number {} re-encodes to {}", hex(wire), hex(&s2n_to_vec(&tpn)));
+    let want = refquic::decode_packet_number(largest, t, bits);
+    let got = tpn.expand(s_largest).as_u64();
+    if want <= VARINT_MAX {
+        ensure_that!(got == want, "pn:expand", "expand(truncated {t:#x} on {bits} bits, largest {largest}) = {got}, RFC 9000 A.3 gives {want}");
+        obs.class("expand:compared");
+    } else {
+        // A.3 yields a number outside the packet number space; nothing to compare
+        obs.class("expand:beyond-2^62");
+    }
+
+    // --- truncate (A.2) and expand again
+    let s_t = s_pn.truncate(s_largest);
+    if pn <= largest {
+        // A.2 is undefined for num_unacked <= 0; only totality is required
+        obs.class("truncate:not-ahead");
+        return Ok(());
+    }
+    let num_unacked = pn - largest;
+    let a2 = refquic::encode_packet_number_len(pn, Some(largest)).unwrap();
+    // §17.1 "MUST use a packet number size able to represent more than twice as large a
+    // range as the difference"; A.2 "at least twice": both readings are accepted
+    let strict = [1usize, 2, 3, 4, 5, 6, 7, 8].into_iter().find(|n| (1u128 << (8 * n)) > 2 * num_unacked as u128).unwrap();
+    match s_t {
+        None => {
+            ensure_that!(strict > 4, "pn:truncate-none", "truncate(pn {pn}, largest acked {largest}) = None although {strict} bytes suffice");
+            obs.class("truncate:too-far");
+        }
+        Some(tp) => {
+            let n = tp.len().bytesize();
+            ensure_that!(a2 <= 4 && n >= a2 && n <= strict, "pn:truncate-len", "truncate(pn {pn}, largest acked {largest}) uses {n} bytes; RFC 9000 A.2 requires {a2} (strict reading of §17.1: {strict})");
+            let bytes = s2n_to_vec(&tp);
+            let full = pn.to_be_bytes();
+            ensure_that!(bytes == full[8 - n..], "pn:truncate-bytes", "truncate(pn {pn:#x}, {largest}) encodes {}, expected the {n} least significant bytes {}", hex(&bytes), hex(&full[8 - n..]));
+            let back = tp.expand(s_largest).as_u64();
+            ensure_that!(back == pn, "pn:round-trip", "pn {pn} truncated against {largest} ({n} bytes) expands to {back}");
+            let mut tv = 0u64;
+            for b in &bytes {
+                tv = (tv << 8) | *b as u64;
+            }
+            let refback = refquic::decode_packet_number(largest, tv, 8 * n as u32);
+            ensure_that!(refback == pn, "pn:round-trip-ref", "reference A.3 decodes s2n's truncation of {pn} (largest {largest}, {n} bytes) as {refback}");
+            obs.class(match n { 1 => "truncate:1-byte", 2 => "truncate:2-byte", 3 => "truncate:3-byte", _ => "truncate:4-byte" });
+            obs.class_if(n != a2, "truncate:one-more-than-A.2");
+        }
+    }
+    obs.nontrivial(true);
+    Ok(())
+}
+
+fn pn_strategy(_t: Tier) -> BoxedStrategy<PnCase> {
+    let near = |p: i64| (Just(p), -3i64..=3, prop::bool::weighted(0.15)).prop_map(|(p, d, neg)| if neg { -(p + d) } else { p + d });
+    let delta = prop_oneof![
+        2 => near(1 << 7),
+        2 => near(1 << 8),
+        2 => near(1 << 15),
+        2 => near(1 << 16),
+        2 => near(1 << 23),
+        2 => near(1 << 24),
+        2 => near(1 << 31),
+        2 => near(1 << 32),
+        3 => 0i64..300,
+        1 => -(1i64 << 33)..(1i64 << 33),
+        2 => 0i64..(1i64 << 33),
+        1 => any::<i64>(),
+    ];
+    let largest = prop_oneof![
+        3 => varint_value(),
+        2 => 0u64..100_000,
+        2 => 0u64..=VARINT_MAX,
+        2 => (0u64..(1u64 << 33)).prop_map(|b| VARINT_MAX - b),
+        // just below / above a multiple of the window sizes
+        2 => (1u64..(1 << 30), prop_oneof![Just(8u32), Just(16), Just(24), Just(32)], -3i64..=3).prop_map(|(k, b, d)| ((k << b) as i64 + d).max(0) as u64 & VARINT_MAX),
+    ];
+    (0u8..3, largest, delta, prop_oneof![any::<u32>(), Just(0u32), Just(u32::MAX), (0u32..4).prop_map(|k| 0x80808080u32 >> k)], 1u8..5)
+        .prop_map(|(space, largest, delta, truncated, len)| PnCase { space, largest, delta, truncated, len })
+        .boxed()
+}
+
+// ---------------------------------------------------------------------------------------
+// sub-check `transport_params_codec`
+
+use refquic::params as rp;
+use refquic::{encode_transport_params_opts, parse_transport_params, RefParams, Role};
+use s2n_quic_core::transport::parameters::{
+    ClientTransportParameters, MigrationSupport, ServerTransportParameters,
+};
+
+#[derive(Clone, Debug, Hash, PartialEq, Eq, Serialize, Deserialize)]
+pub enum ParamsCase {
+    /// TLVs from the reference encoder (any order, duplicates, unknown ids), then mutations
+    Tlvs { sender: Role, tlvs: Vec<(u64, Vec<u8>)>, bumps: Vec<u8>, muts: Vec<Mutation> },
+    Raw { sender: Role, bytes: Vec<u8> },
+}
+
+/// s2n-quic's private transport parameters (`DcSupportedVersions`, `MtuProbingCompleteSupport`)
+const S2N_EXTENSION_PARAMS: [u64; 2] = [0xdc0000, 0xdc0002];
+
+macro_rules! cmp_common_params {
+    ($r:expr, $s:expr) => {{
+        let r: &RefParams = $r;
+        let s = $s;
+        same!("max_idle_timeout", r.max_idle_timeout, s.max_idle_timeout.as_u64());
+        same!("max_udp_payload_size", r.max_udp_payload_size, s.max_udp_payload_size.as_u64());
+        same!("initial_max_data", r.initial_max_data, s.initial_max_data.as_u64());
+        same!("initial_max_stream_data_bidi_local", r.initial_max_stream_data_bidi_local, s.initial_max_stream_data_bidi_local.as_u64());
+        same!("initial_max_stream_data_bidi_remote", r.initial_max_stream_data_bidi_remote, s.initial_max_stream_data_bidi_remote.as_u64());
+        same!("initial_max_stream_data_uni", r.initial_max_stream_data_uni, s.initial_max_stream_data_uni.as_u64());
+        same!("initial_max_streams_bidi", r.initial_max_streams_bidi, s.initial_max_streams_bidi.as_u64());
+        same!("initial_max_streams_uni", r.initial_max_streams_uni, s.initial_max_streams_uni.as_u64());
+        same!("max_datagram_frame_size", r.max_datagram_frame_size, s.max_datagram_frame_size.as_u64());
+        same!("ack_delay_exponent", r.ack_delay_exponent, *s.ack_delay_exponent as u64);
+        same!("max_ack_delay", r.max_ack_delay, s.max_ack_delay.as_u64());
+        same!("disable_active_migration", r.disable_active_migration, s.migration_support == MigrationSupport::Disabled);
+        same!("active_connection_id_limit", r.active_connection_id_limit, s.active_connection_id_limit.as_u64());
+        same!("initial_source_connection_id", r.initial_source_connection_id.as_deref(), s.initial_source_connection_id.as_ref().map(|c| c.as_bytes()));
+    }};
+}
+
+fn cmp_client_params(r: &RefParams, s: &ClientTransportParameters) -> Result<(), String> {
+    cmp_common_params!(r, s);
+    Ok(())
+}
+
+fn cmp_server_params(r: &RefParams, s: &ServerTransportParameters) -> Result<(), String> {
+    cmp_common_params!(r, s);
+    same!("original_destination_connection_id", r.original_destination_connection_id.as_deref(), s.original_destination_connection_id.as_ref().map(|c| c.as_bytes()));
+    same!("retry_source_connection_id", r.retry_source_connection_id.as_deref(), s.retry_source_connection_id.as_ref().map(|c| c.as_bytes()));
+    same!("stateless_reset_token", r.stateless_reset_token, s.stateless_reset_token.map(|t| t.into_inner()));
+    match (&r.preferred_address, &s.preferred_address) {
+        (None, None) => {}
+        (Some(a), Some(b)) => {
+            let mut v4 = a.ipv4.to_vec();
+            v4.extend_from_slice(&a.ipv4_port.to_be_bytes());
+            let mut v6 = a.ipv6.to_vec();
+            v6.extend_from_slice(&a.ipv6_port.to_be_bytes());
+            // s2n maps the all-zero address:port to None ("not specified", §18.2)
+            same!("preferred_address.ipv4", v4, b.ipv4_address.as_ref().map(s2n_to_vec).unwrap_or(vec![0; 6]));
+            same!("preferred_address.ipv6", v6, b.ipv6_address.as_ref().map(s2n_to_vec).unwrap_or(vec![0; 18]));
+            same!("preferred_address.connection_id", &a.cid[..], b.connection_id.as_bytes());
+            same!("preferred_address.stateless_reset_token", a.reset_token, b.stateless_reset_token.into_inner());
+        }
+        (a, b) => return Err(format!("field `preferred_address`: reference {a:?}, s2n {b:?}")),
+    }
+    Ok(())
+}
+
+/// everything RFC 9000 has an opinion on, without what is only s2n's
+fn strip_unknown(mut p: RefParams) -> RefParams {
+    p.unknown.clear();
+    p
+}
+
+fn params_oracle(case: &ParamsCase, obs: &mut Obs) -> CaseResult {
+    let (sender, bytes, near_valid) = match case {
+        ParamsCase::Tlvs { sender, tlvs, bumps, muts } => {
+            let mut b = vec![];
+            encode_transport_params_opts(tlvs, bumps, &mut b);
+            apply_mutations(&mut b, &[], muts);
+            obs.class(if muts.is_empty() { "family:grammar" } else { "family:mutated" });
+            (*sender, b, muts.len() <= 2 && tlvs.len() >= 2)
+        }
+        ParamsCase::Raw { sender, bytes } => {
+            obs.class("family:raw");
+            (*sender, bytes.clone(), false)
+        }
+    };
+    obs.class(if sender == Role::Client { "sender:client" } else { "sender:server" });
+    let raw = parse_transport_params(&bytes);
+    let typed = raw.as_ref().ok().map(|t| RefParams::from_tlvs(t));
+
+    // decode with s2n; keep a uniform view of the result
+    let s_client = if sender == Role::Client { Some(DecoderBuffer::new(&bytes).decode::<ClientTransportParameters>()) } else { None };
+    let s_server = if sender == Role::Server { Some(DecoderBuffer::new(&bytes).decode::<ServerTransportParameters>()) } else { None };
+    let s2n_ok = s_client.as_ref().map_or(false, |r| r.is_ok()) || s_server.as_ref().map_or(false, |r| r.is_ok());
+    let s2n_err = format!("{:?}{:?}", s_client.as_ref().and_then(|r| r.as_ref().err()), s_server.as_ref().and_then(|r| r.as_ref().err()));
+
+    let tlvs = match raw {
+        Err(e) => {
+            ensure_that!(!s2n_ok, "tp:s2n-accepts-malformed", "block {} (from {sender:?}): not a sequence of complete TLVs ({e:?}) but s2n accepts it", hex(&bytes));
+            obs.class("outcome:both-reject");
+            return Ok(());
+        }
+        Ok(t) => t,
+    };
+    obs.nontrivial(tlvs.len() >= 2 || near_valid);
+    let has_ext = tlvs.iter().any(|(id, _)| S2N_EXTENSION_PARAMS.contains(id));
+    obs.class_if(has_ext, "skip:s2n-extension");
+    obs.class_if(tlvs.iter().any(|(id, _)| !rp::KNOWN_IDS.contains(id) && !S2N_EXTENSION_PARAMS.contains(id)), "with-unknown-ids");
+    let typed = typed.unwrap();
+    let rparams = match typed {
+        Err(e) => {
+            // a known parameter whose value does not have the format of §18.2
+            ensure_that!(!s2n_ok, "tp:s2n-accepts-bad-value-format", "block {} (from {sender:?}): {e:?}, but s2n accepts it", hex(&bytes));
+            obs.class("outcome:value-format-rejected");
+            return Ok(());
+        }
+        Ok(p) => p,
+    };
+    if !s2n_ok {
+        let violations = rparams.range_violations(sender);
+        // s2n-specific strictness that RFC 9000 neither demands nor forbids
+        let short_cid = rparams.original_destination_connection_id.as_ref().map_or(false, |c| c.len() < 8)
+            || rparams.retry_source_connection_id.as_ref().map_or(false, |c| c.len() < 4);
+        let pa_unspecified = rparams.preferred_address.as_ref().map_or(false, |a| a.ipv4 == [0; 4] && a.ipv4_port == 0 && a.ipv6 == [0; 16] && a.ipv6_port == 0);
+        if !violations.is_empty() {
+            obs.class("latitude:range-or-role-rule(C14)");
+        } else if has_ext {
+            obs.class("latitude:s2n-extension-value");
+        } else if short_cid {
+            obs.class("latitude:short-connection-id-parameter");
+        } else if pa_unspecified {
+            obs.class("latitude:preferred-address-unspecified");
+        } else {
+            // §16: integers need not be in their shortest form; ack_delay_exponent is an integer (§18.2)
+            let nonmin_ade = tlvs.iter().any(|(id, v)| *id == rp::ACK_DELAY_EXPONENT && v.len() > 1);
+            let key = if nonmin_ade { "tp:s2n-rejects-valid:ack_delay_exponent-non-minimal-varint" } else { "tp:s2n-rejects-valid" };
+            fail!(key, "block {} (from {sender:?}) is well-formed and within all ranges of RFC 9000 §18.2 ({:?}) but s2n rejects it: {s2n_err}", hex(&bytes), tlvs.iter().map(|(id, v)| (id, hex(v))).collect::<Vec<_>>());
+        }
+        obs.class("outcome:s2n-rejects");
+        return Ok(());
+    }
+
+    // s2n accepted: every field it reports must be the reference's typed view
+    let cmp = match (&s_client, &s_server) {
+        (Some(Ok((p, _))), _) => cmp_client_params(&rparams, p),
+        (_, Some(Ok((p, _)))) => cmp_server_params(&rparams, p),
+        _ => unreachable!(),
+    };
+    if let Err(why) = cmp {
+        fail!("tp:field-mismatch", "block {} (from {sender:?}): {why}", hex(&bytes));
+    }
+    obs.class("outcome:agree-value");
+    obs.class_if(!rparams.range_violations(sender).is_empty(), "deferred:range-or-role-rule(C14)");
+
+    // encode -> decode round trip with the announced size
+    let (encoded, reparsed_equal) = match (s_client, s_server) {
+        (Some(Ok((p, rest))), _) => {
+            ensure_that!(rest.is_empty(), "tp:consumed", "s2n left {} bytes of the block", rest.len());
+            let e = s2n_to_vec(&p);
+            s2n_encode_checked(&p, &e, "tp:encode")?;
+            let back = DecoderBuffer::new(&e).decode::<ClientTransportParameters>();
+            (e.clone(), matches!(back, Ok((q, _)) if q == p))
+        }
+        (_, Some(Ok((p, rest)))) => {
+            ensure_that!(rest.is_empty(), "tp:consumed", "s2n left {} bytes of the block", rest.len());
+            let e = s2n_to_vec(&p);
+            s2n_encode_checked(&p, &e, "tp:encode")?;
+            let back = DecoderBuffer::new(&e).decode::<ServerTransportParameters>();
+            (e.clone(), matches!(back, Ok((q, _)) if q == p))
+        }
+        _ => unreachable!(),
+    };
+    ensure_that!(reparsed_equal, "tp:round-trip", "block {}: s2n re-encodes it as {} which does not decode to the same parameters", hex(&bytes), hex(&encoded));
+    // the re-encoded block means the same to the reference parser, and uses shortest varints
+    let again = RefParams::parse(&encoded);
+    let mut want = strip_unknown(rparams.clone());
+    want.duplicates.clear();
+    match again {
+        Ok(a) => ensure_that!(strip_unknown(a.clone()) == want, "tp:reencode-differs", "block {}: s2n re-encodes it as {}; reference reads {:?}, original {:?}", hex(&bytes), hex(&encoded), strip_unknown(a), want),
+        Err(e) => fail!("tp:reencode-malformed", "block {}: s2n re-encodes it as {} which the reference parser rejects: {e:?}", hex(&bytes), hex(&encoded)),
+    }
+    let mut minimal = vec![];
+    refquic::encode_transport_params(&parse_transport_params(&encoded).unwrap(), &mut minimal);
+    ensure_that!(minimal == encoded, "tp:reencode-not-minimal", "s2n emits {} — ids/lengths not in shortest form (shortest: {})", hex(&encoded), hex(&minimal));
+    Ok(())
+}
+
+fn cid_value(min_ok: usize) -> BoxedStrategy<Vec<u8>> {
+    prop_oneof![
+        8 => (min_ok..21, any::<u64>()).prop_map(|(n, k)| prf_vec(k, 0, n)),
+        1 => (0usize..min_ok.max(1), any::<u64>()).prop_map(|(n, k)| prf_vec(k, 0, n)),
+        1 => (21usize..30, any::<u64>()).prop_map(|(n, k)| prf_vec(k, 0, n)),
+    ]
+    .boxed()
+}
+
+/// integer value: mostly shortest form, sometimes widened, rarely malformed
+fn int_bytes(v: BoxedStrategy<u64>) -> BoxedStrategy<Vec<u8>> {
+    (v, prop_oneof![10 => Just(0u8), 2 => 1u8..4], prop_oneof![14 => Just(0u8), 1 => Just(1u8), 1 => Just(2u8)])
+        .prop_map(|(v, bump, damage)| {
+            let mut b = vec![];
+            let width = (varint_len(v) << bump).min(8);
+            refquic::encode_varint_width(v, width, &mut b);
+            match damage {
+                1 => b.push(0),
+                2 => {
+                    b.pop();
+                }
+                _ => {}
+            }
+            b
+        })
+        .boxed()
+}
+
+fn tlv_strategy(sender: Role) -> BoxedStrategy<(u64, Vec<u8>)> {
+    let generic = || int_bytes(vi());
+    let known = prop_oneof![
+        (Just(rp::MAX_IDLE_TIMEOUT), generic()),
+        (Just(rp::MAX_UDP_PAYLOAD_SIZE), int_bytes(prop_oneof![6 => 1200u64..=65527, 1 => 0u64..1200, 1 => 65528u64..100000].boxed())),
+        (Just(rp::INITIAL_MAX_DATA), generic()),
+        (Just(rp::INITIAL_MAX_STREAM_DATA_BIDI_LOCAL), generic()),
+        (Just(rp::INITIAL_MAX_STREAM_DATA_BIDI_REMOTE), generic()),
+        (Just(rp::INITIAL_MAX_STREAM_DATA_UNI), generic()),
+        (Just(rp::INITIAL_MAX_STREAMS_BIDI), int_bytes(max_streams_value())),
+        (Just(rp::INITIAL_MAX_STREAMS_UNI), int_bytes(max_streams_value())),
+        (Just(rp::ACK_DELAY_EXPONENT), int_bytes(prop_oneof![8 => 0u64..=20, 1 => 21u64..300].boxed())),
+        (Just(rp::MAX_ACK_DELAY), int_bytes(prop_oneof![8 => 0u64..16384, 1 => 16384u64..40000].boxed())),
+        (Just(rp::DISABLE_ACTIVE_MIGRATION), prop_oneof![9 => Just(vec![]), 1 => Just(vec![0u8])]),
+        (Just(rp::ACTIVE_CONNECTION_ID_LIMIT), int_bytes(prop_oneof![8 => 2u64..100, 1 => 0u64..2, 1 => vi()].boxed())),
+        (Just(rp::INITIAL_SOURCE_CONNECTION_ID), cid_value(0)),
+        (Just(rp::MAX_DATAGRAM_FRAME_SIZE), generic()),
+    ];
+    let server_only = prop_oneof![
+        (Just(rp::ORIGINAL_DESTINATION_CONNECTION_ID), cid_value(8)),
+        (Just(rp::STATELESS_RESET_TOKEN), prop_oneof![9 => any::<[u8; 16]>().prop_map(|t| t.to_vec()), 1 => pvec(any::<u8>(), 0..20)]),
+        (Just(rp::RETRY_SOURCE_CONNECTION_ID), cid_value(4)),
+        (
+            Just(rp::PREFERRED_ADDRESS),
+            (any::<[u8; 4]>(), any::<u16>(), any::<[u8; 16]>(), any::<u16>(), prop_oneof![8 => cid_value(1), 1 => Just(vec![])], any::<[u8; 16]>(), 0u8..12, 0u8..12)
+                .prop_map(|(ipv4, ipv4_port, ipv6, ipv6_port, cid, reset_token, zero, damage)| {
+                    let mut a = rp::RefPreferredAddress { ipv4, ipv4_port, ipv6, ipv6_port, cid, reset_token };
+                    if zero & 1 == 1 && zero < 6 {
+                        a.ipv4 = [0; 4];
+                        a.ipv4_port = 0;
+                    }
+                    if zero & 2 == 2 && zero < 6 {
+                        a.ipv6 = [0; 16];
+                        a.ipv6_port = 0;
+                    }
+                    let mut v = a.encode();
+                    match damage {
+                        0 => v.push(7),
+                        1 => {
+                            v.pop();
+                        }
+                        _ => {}
+                    }
+                    v
+                })
+        ),
+    ];
+    // unknown ids incl. the reserved "greasing" ids 31 * N + 27 (§18.1), and s2n's own
+    let unknown_id = prop_oneof![
+        3 => (0u64..1000).prop_map(|n| 31 * n + 27),
+        2 => 0x11u64..0x20,
+        2 => 0x21u64..0x4000,
+        1 => vi().prop_map(|v| if rp::KNOWN_IDS.contains(&v) { 0x3f } else { v }),
+    ];
+    let server_weight = if sender == Role::Server { 5 } else { 1 };
+    prop_oneof![
+        14 => known,
+        server_weight => server_only,
+        4 => (unknown_id, pvec(any::<u8>(), 0..12)),
+        1 => (prop_oneof![Just(0xdc0000u64), Just(0xdc0002)], prop_oneof![Just(vec![]), Just(vec![1u8]), pvec(any::<u8>(), 0..6)]),
+    ]
+    .boxed()
+}
+
+fn params_strategy(_t: Tier) -> BoxedStrategy<ParamsCase> {
+    let role = prop_oneof![Just(Role::Client), Just(Role::Server)];
+    let tlvs = role.clone().prop_flat_map(|sender| {
+        (
+            Just(sender),
+            pvec(tlv_strategy(sender), 0..9),
+            // make the ids distinct unless asked otherwise (duplicates are a C14 matter)
+            prop::bool::weighted(0.1),
+        )
+            .prop_map(|(sender, mut tlvs, keep_dups)| {
+                if !keep_dups {
+                    let mut seen = vec![];
+                    tlvs.retain(|(id, _)| {
+                        let dup = seen.contains(id);
+                        seen.push(*id);
+                        !dup
+                    });
+                }
+                (sender, tlvs)
+            })
+    });
+    prop_oneof![
+        10 => (tlvs, bumps_strategy(), prop_oneof![4 => Just(vec![]), 3 => pvec(mutation_strategy(), 1..3), 1 => pvec(mutation_strategy(), 3..6)])
+            .prop_map(|((sender, tlvs), bumps, muts)| ParamsCase::Tlvs { sender, tlvs, bumps, muts }),
+        1 => (role.clone(), pvec(any::<u8>(), 0..40)).prop_map(|(sender, bytes)| ParamsCase::Raw { sender, bytes }),
+        // TLV-shaped noise: small ids, small lengths
+        1 => (role, pvec(prop_oneof![0u8..0x12, 0u8..4, any::<u8>()], 0..40)).prop_map(|(sender, bytes)| ParamsCase::Raw { sender, bytes }),
+    ]
+    .boxed()
+}
+
+// ---------------------------------------------------------------------------------------
 
 pub fn subs() -> Vec<Box<dyn SubCheck>> {
-    vec![]
+    vec![
+        Box::new(EnumCheck::<VarintCase> {
+            name: "varint_exhaustive",
+            total: varint_enum_total,
+            case: varint_enum_case,
+            oracle: varint_oracle,
+        }),
+        Box::new(PropCheck::<VarintCase, _> {
+            name: "varint",
+            cases: |t| t.pick(400_000, 30_000_000),
+            strategy: varint_strategy,
+            oracle: varint_oracle,
+            max_shrink_iters: 5_000,
+        }),
+        Box::new(PropCheck::<FrameValueCase, _> {
+            name: "frame_values",
+            cases: |t| t.pick(1_100_000, 80_000_000),
+            strategy: frame_value_strategy,
+            oracle: frame_value_oracle,
+            max_shrink_iters: 20_000,
+        }),
+        Box::new(PropCheck::<FrameBytesCase, _> {
+            name: "frame_bytes",
+            cases: |t| t.pick(1_800_000, 120_000_000),
+            strategy: frame_bytes_strategy,
+            oracle: frame_bytes_oracle,
+            max_shrink_iters: 20_000,
+        }),
+        Box::new(PropCheck::<HeaderCase, _> {
+            name: "packet_headers",
+            cases: |t| t.pick(1_100_000, 80_000_000),
+            strategy: header_strategy,
+            oracle: header_oracle,
+            max_shrink_iters: 20_000,
+        }),
+        Box::new(PropCheck::<PnCase, _> {
+            name: "packet_numbers",
+            cases: |t| t.pick(800_000, 60_000_000),
+            strategy: pn_strategy,
+            oracle: pn_oracle,
+            max_shrink_iters: 5_000,
+        }),
+        Box::new(PropCheck::<ParamsCase, _> {
+            name: "transport_params_codec",
+            cases: |t| t.pick(1_100_000, 80_000_000),
+            strategy: params_strategy,
+            oracle: params_oracle,
+            max_shrink_iters: 20_000,
+        }),
+    ]
 }
 
 pub fn property() -> Property {
     Property {
         id: "C05",
-        rule: "",
-        assumptions: &[],
+        rule: "Differential of s2n-quic-core's codecs against refquic (independent RFC 9000 §16-§19 / RFC 9221 transcription). \
+               varint: all 1- and 2-byte strings + first-byte/length/fill sweep (exhaustive), random and boundary-width byte strings <= 9 bytes, \
+               values biased to 0, 63/64, 16383/16384, 2^30+-1, 2^62-1 and beyond. frame_values: one typed frame of every RFC 9000/9221 type \
+               (all field ranges, ACK with 0-64 ranges incl. adversarial gaps, STREAM/DATAGRAM with every flag combination, payload lengths around \
+               63/64 and 16383/16384) encoded minimally and with widened varints by the reference encoder, decoded by s2n, re-encoded by s2n into exactly \
+               sized / oversized canary-guarded buffers and the length estimator, plus try_fit. frame_bytes: packet payloads: grammar sequences (every \
+               truncation length), 1-6 byte-level mutations (flip, set, insert, delete, truncate, length field +-1, duplicate), splices, raw and \
+               type-biased noise, mutated repo sample files; frame after frame both decoders must agree on error-vs-value, all fields and bytes consumed. \
+               packet_headers: 1-3 coalesced generated packets of every type (short header with every DCID length 0-20, connection ids up to 255 bytes, \
+               versions 1/0/other), every truncation, mutations, noise, repo samples; fields, packet number offset, packet length, and the cleartext view \
+               under the no-op testing keys. packet_numbers: (largest, pn) with distances 2^7/8/15/16/23/24/31/32 +-3 vs the literal A.2/A.3 pseudocode. \
+               transport_params_codec: TLV blocks from the reference encoder (any order, unknown/greasing ids, widened varints, malformed values), mutations, \
+               noise, for both senders. Non-trivial: the reference parser decodes >= 1 complete multi-field frame / >= 1 complete header / >= 2 parameters \
+               from the input, or the input is <= 2 byte edits away from such a message; for values: a valid multi-field frame, a defined varint, pn ahead of \
+               largest. Distinct = distinct generated cases (hash of the case).",
+        assumptions: &[
+            "refquic (reference parser/encoder written from RFC 9000 §16-§19, App. A.2/A.3 and RFC 9221; self-tested by round trip and the RFC examples) is the trusted base",
+            "latitude classes accept either outcome: non-minimal frame type (§12.4 MAY), s2n extension frame types/parameters 0xdc0000/0xdc0002, RFC validity rules on well-formed input (deferred or rejected), long headers of versions other than 1, Version Negotiation with connection ids > 20 bytes, Initial with connection ids > 20 bytes (validated after version negotiation), transport-parameter range/role/duplicate rules (property C14), ODCID < 8 / retry SCID < 4 bytes, all-unspecified preferred address",
+            "version-1 Handshake/0-RTT/Retry headers with a connection id > 20 bytes must be rejected by ProtectedPacket::decode (RFC 9000 §17.2 MUST drop; this is where s2n enforces it)",
+            "packet-number length: anything between RFC 9000 A.2 ('at least twice') and the strict reading of §17.1 ('more than twice') is accepted",
+            "header protection / AEAD are out of scope (C06/C07); the cleartext view uses crypto::key::testing no-op keys and is compared only when s2n's unprotect/decrypt succeed",
+            "repo sample files are read from $VERIF_REPO (default /repo); if absent that family is skipped and counted",
+        ],
         subs: subs(),
         shards: 0,
     }
